@@ -10,7 +10,1872 @@ Context {G F : Type}.
 Variable evaluate : G -> F.
 Variable fle : F -> F -> bool.
 
-Lemma gu_ngen0 : ea_gu evaluate fle [] = init empty_store [].
-Proof. reflexivity. Qed.
+Notation ind := (@ind G F).
+Notation store := (@store G F).
+Notation state := (@state G F).
+Notation rec := (@rec G F).
+Notation ans := (@ans G F).
+Implicit Types st : store.
+Implicit Types s : state.
+
+(* ------------------------------------------------------------------ *)
+(* stores *)
+
+(* the object u carries a valid fitness equal to evaluate(genotype) *)
+Definition truthful (st : store) (u : uid) : Prop :=
+  exists i, st u = Some i /\ fit i = Some (evaluate (geno i)).
+
+(* the object u exists and its fitness is invalid or truthful *)
+Definition honest (st : store) (u : uid) : Prop :=
+  exists i, st u = Some i /\ (fit i = None \/ fit i = Some (evaluate (geno i))).
+
+(* every existing object is untouched *)
+Definition extends (st st' : store) : Prop := forall u i, st u = Some i -> st' u = Some i.
+
+Lemma extends_refl st : extends st st.
+Proof. intros u i H; exact H. Qed.
+
+Lemma extends_trans (a b c : store) : extends a b -> extends b c -> extends a c.
+Proof. intros H1 H2 u i H; auto. Qed.
+
+Lemma upd_same (st : store) u i : upd st u i u = Some i.
+Proof. unfold upd. rewrite Nat.eqb_refl. reflexivity. Qed.
+
+Lemma upd_other (st : store) u i v : v <> u -> upd st u i v = st v.
+Proof. intro N. unfold upd. destruct (Nat.eqb_spec v u); [contradiction|reflexivity]. Qed.
+
+Lemma extends_upd_fresh st0 st u i : extends st0 st -> st0 u = None -> extends st0 (upd st u i).
+Proof.
+  intros E N v j H. destruct (Nat.eq_dec v u) as [->|D]; [congruence|].
+  rewrite upd_other by assumption. auto.
+Qed.
+
+Lemma extends_none st0 st u : extends st0 st -> st u = None -> st0 u = None.
+Proof. intros E N. destruct (st0 u) eqn:H; [|reflexivity]. apply E in H. congruence. Qed.
+
+Lemma truthful_extends st st' u : extends st st' -> truthful st u -> truthful st' u.
+Proof. intros E [i [H1 H2]]. exists i; split; auto. Qed.
+
+Lemma truthful_honest st u : truthful st u -> honest st u.
+Proof. intros [i [H1 H2]]. exists i; split; auto. Qed.
+
+Lemma is_invalid_true st u :
+  is_invalid st u = true <-> exists i, st u = Some i /\ fit i = None.
+Proof.
+  unfold is_invalid. destruct (st u) as [i|].
+  - destruct (fit i) eqn:E; split.
+    + discriminate.
+    + intros [j [H1 H2]]. inversion H1; subst. congruence.
+    + intros _. exists i; auto.
+    + reflexivity.
+  - split; [discriminate|]. intros [j [H1 _]]. discriminate.
+Qed.
+
+Lemma truthful_not_invalid st u : truthful st u -> is_invalid st u = false.
+Proof.
+  intros [i [H1 H2]]. unfold is_invalid. rewrite H1, H2. reflexivity.
+Qed.
+
+(* ------------------------------------------------------------------ *)
+(* eval_list *)
+
+(* the (individual, genotype) pairs evaluate is called with *)
+Definition geno_pairs (st : store) (l : list uid) : list (uid * G) :=
+  flat_map (fun u => match st u with Some i => [(u, geno i)] | None => [] end) l.
+
+Definition same_geno (st st' : store) : Prop :=
+  forall u, option_map geno (st u) = option_map geno (st' u).
+
+Lemma same_geno_refl st : same_geno st st.
+Proof. intro; reflexivity. Qed.
+
+Lemma same_geno_trans (a b c : store) : same_geno a b -> same_geno b c -> same_geno a c.
+Proof. intros H1 H2 u. rewrite H1. apply H2. Qed.
+
+Lemma geno_pairs_same st st' l : same_geno st st' -> geno_pairs st l = geno_pairs st' l.
+Proof.
+  intro H. unfold geno_pairs. induction l as [|u r IH]; cbn; [reflexivity|].
+  rewrite IH. f_equal. specialize (H u). destruct (st u), (st' u); cbn in H; congruence.
+Qed.
+
+Lemma same_geno_eval1 (st : store) u i :
+  st u = Some i -> same_geno st (upd st u (mkind (geno i) (Some (evaluate (geno i))))).
+Proof.
+  intros H v. destruct (Nat.eq_dec v u) as [->|D].
+  - rewrite upd_same, H. reflexivity.
+  - rewrite upd_other by assumption. reflexivity.
+Qed.
+
+Lemma eval_list_same_geno l : forall st, same_geno st (fst (eval_list evaluate st l)).
+Proof.
+  induction l as [|u r IH]; intro st; cbn; [apply same_geno_refl|].
+  destruct (st u) as [i|] eqn:E; [|apply IH].
+  specialize (IH (upd st u (mkind (geno i) (Some (evaluate (geno i)))))).
+  destruct (eval_list evaluate _ r) as [s'' log] eqn:R. cbn in *.
+  eapply same_geno_trans; [apply same_geno_eval1; eassumption|exact IH].
+Qed.
+
+Lemma eval_list_log l : forall st, snd (eval_list evaluate st l) = geno_pairs st l.
+Proof.
+  induction l as [|u r IH]; intro st; cbn; [reflexivity|].
+  destruct (st u) as [i|] eqn:E; [|apply IH].
+  specialize (IH (upd st u (mkind (geno i) (Some (evaluate (geno i)))))).
+  destruct (eval_list evaluate _ r) as [s'' log] eqn:R. cbn in *.
+  rewrite IH. f_equal. symmetry. apply geno_pairs_same. apply same_geno_eval1; assumption.
+Qed.
+
+Lemma eval_list_other l : forall st u, ~ In u l -> fst (eval_list evaluate st l) u = st u.
+Proof.
+  induction l as [|v r IH]; intros st u N; cbn; [reflexivity|].
+  cbn in N. destruct (st v) as [i|] eqn:E.
+  - specialize (IH (upd st v (mkind (geno i) (Some (evaluate (geno i))))) u).
+    destruct (eval_list evaluate _ r) as [s'' log] eqn:R. cbn in *.
+    rewrite IH by tauto. apply upd_other. intro; subst; tauto.
+  - apply IH; tauto.
+Qed.
+
+Lemma eval_list_keeps_truthful l : forall st u,
+  truthful st u -> truthful (fst (eval_list evaluate st l)) u.
+Proof.
+  induction l as [|v r IH]; intros st u T; cbn; [exact T|].
+  destruct (st v) as [i|] eqn:E; [|apply IH; exact T].
+  specialize (IH (upd st v (mkind (geno i) (Some (evaluate (geno i))))) u).
+  destruct (eval_list evaluate _ r) as [s'' log] eqn:R. cbn in *.
+  apply IH. destruct (Nat.eq_dec u v) as [->|D].
+  - eexists; split; [apply upd_same|reflexivity].
+  - destruct T as [j [T1 T2]]. exists j; split; [rewrite upd_other by assumption; exact T1|exact T2].
+Qed.
+
+Lemma eval_list_truthful l : forall st u,
+  In u l -> st u <> None -> truthful (fst (eval_list evaluate st l)) u.
+Proof.
+  induction l as [|v r IH]; intros st u I K; cbn; [destruct I|].
+  destruct (Nat.eq_dec u v) as [->|D].
+  - destruct (st v) as [i|] eqn:E; [|congruence].
+    pose proof (eval_list_keeps_truthful r (upd st v (mkind (geno i) (Some (evaluate (geno i))))) v) as KT.
+    destruct (eval_list evaluate _ r) as [s'' log] eqn:R. cbn in *.
+    apply KT. eexists; split; [apply upd_same|reflexivity].
+  - destruct I as [->|I]; [congruence|].
+    destruct (st v) as [i|] eqn:E; [|apply IH; assumption].
+    specialize (IH (upd st v (mkind (geno i) (Some (evaluate (geno i))))) u I).
+    destruct (eval_list evaluate _ r) as [s'' log] eqn:R. cbn in *.
+    apply IH. rewrite upd_other by assumption. exact K.
+Qed.
+
+Lemma geno_pairs_known st l :
+  Forall (fun u => st u <> None) l ->
+  map fst (geno_pairs st l) = l /\ length (geno_pairs st l) = length l /\
+  Forall (fun c => exists i, st (fst c) = Some i /\ geno i = snd c) (geno_pairs st l).
+Proof.
+  induction 1 as [|u r K _ IH]; [cbn; repeat split; constructor|].
+  destruct IH as [I1 [I2 I3]].
+  destruct (st u) as [i|] eqn:E; [|congruence].
+  assert (X : geno_pairs st (u :: r) = (u, geno i) :: geno_pairs st r).
+  { unfold geno_pairs. cbn. rewrite E. reflexivity. }
+  rewrite X. cbn. rewrite I1, I2. repeat split.
+  constructor; [exists i; cbn; auto|exact I3].
+Qed.
+
+Lemma invalid_of_known st l : Forall (fun u => st u <> None) (invalid_of st l).
+Proof.
+  unfold invalid_of. apply Forall_forall. intros u H. apply filter_In in H. destruct H as [_ H].
+  apply is_invalid_true in H. destruct H as [i [H _]]. congruence.
+Qed.
+
+Lemma invalid_of_incl st l : incl (invalid_of st l) l.
+Proof. intros u H. apply filter_In in H. tauto. Qed.
+
+(* evaluating the invalid members of l: afterwards every honest member of l is truthful,
+   truthful objects stay truthful, objects with a valid fitness are untouched *)
+Lemma eval_invalid_members st l u :
+  In u l -> honest st u -> truthful (fst (eval_list evaluate st (invalid_of st l))) u.
+Proof.
+  intros I [i [H1 [H2|H2]]].
+  - apply eval_list_truthful; [|congruence].
+    apply filter_In. split; [exact I|]. apply is_invalid_true. exists i; auto.
+  - apply eval_list_keeps_truthful. exists i; auto.
+Qed.
+
+Lemma eval_invalid_valid_untouched st l u :
+  is_invalid st u = false -> fst (eval_list evaluate st (invalid_of st l)) u = st u.
+Proof.
+  intro H. apply eval_list_other. intro I. apply filter_In in I. destruct I as [_ I]. congruence.
+Qed.
+
+(* ------------------------------------------------------------------ *)
+(* the invariant of the generation loops (no order on fitnesses needed) *)
+
+Definition shown_in (shown : list (list uid)) (u : uid) : Prop := exists b, In b shown /\ In u b.
+
+Definition entry_truthful (p : uid * option ind) : Prop :=
+  exists i, snd p = Some i /\ fit i = Some (evaluate (geno i)).
+Definition snap_truthful (r : rec) : Prop := Forall entry_truthful (r_snap r).
+
+Record InvC (s : state) : Prop := mkInvC {
+  (* every individual of the population carries a valid fitness equal to evaluate(genotype) *)
+  ic_pop : Forall (truthful (s_st s)) (s_pop s);
+  (* the logbook's gen column is 0, 1, 2, ... *)
+  ic_gens : map r_gen (s_log s) = seq 0 (length (s_log s));
+  (* one call log per record, and nevals is the number of calls of that generation *)
+  ic_nevals : Forall2 (fun c r => r_nevals r = length c) (s_calls s) (s_log s);
+  (* at every boundary so far the statistics saw only valid, truthful fitnesses *)
+  ic_snap : Forall snap_truthful (s_log s);
+  (* the last record is the snapshot of the current population *)
+  ic_last : s_log s = [] \/ exists l r, s_log s = l ++ [r] /\ r_snap r = snap (s_st s) (s_pop s);
+  (* every evaluated individual, and every member of the population, was passed to halloffame.update *)
+  ic_shown_calls : Forall (Forall (fun c => shown_in (s_shown s) (fst c))) (s_calls s);
+  ic_shown_pop : Forall (shown_in (s_shown s)) (s_pop s) }.
+
+(* the part of the invariant that only speaks about the history *)
+Record Hist (s : state) : Prop := mkHist {
+  h_gens : map r_gen (s_log s) = seq 0 (length (s_log s));
+  h_nevals : Forall2 (fun c r => r_nevals r = length c) (s_calls s) (s_log s);
+  h_snap : Forall snap_truthful (s_log s);
+  h_shown_calls : Forall (Forall (fun c => shown_in (s_shown s) (fst c))) (s_calls s) }.
+
+Lemma InvC_Hist s : InvC s -> Hist s.
+Proof. intros [A B C D E H J]. constructor; assumption. Qed.
+
+Lemma shown_in_app shown b u : shown_in shown u -> shown_in (shown ++ [b]) u.
+Proof. intros [x [H1 H2]]. exists x; split; [apply in_or_app; auto|exact H2]. Qed.
+
+Lemma shown_in_last shown b u : In u b -> shown_in (shown ++ [b]) u.
+Proof. intro H. exists b; split; [apply in_or_app; right; left; reflexivity|exact H]. Qed.
+
+Lemma finish_gen_eq gen s st1 off newpop :
+  finish_gen evaluate fle gen s st1 off newpop =
+  let inv := invalid_of st1 off in
+  let st2 := fst (eval_list evaluate st1 inv) in
+  let best := hof_update fle (s_best s) st2 off in
+  mkstate st2 newpop (s_calls s ++ [geno_pairs st1 inv])
+          (s_log s ++ [mkrec gen (length inv) (snap st2 newpop) best])
+          (s_shown s ++ [off]) best.
+Proof.
+  unfold finish_gen. rewrite <- eval_list_log.
+  destruct (eval_list evaluate st1 (invalid_of st1 off)) as [st2 log]. reflexivity.
+Qed.
+
+Lemma snap_truthful_of st l : Forall (truthful st) l -> Forall entry_truthful (snap st l).
+Proof.
+  intro H. unfold snap. apply Forall_forall. intros p I. apply in_map_iff in I.
+  destruct I as [u [<- I]]. rewrite Forall_forall in H. destruct (H u I) as [i [H1 H2]].
+  exists i; cbn; auto.
+Qed.
+
+Lemma seq_snoc n : seq 0 (n + 1) = seq 0 n ++ [n].
+Proof. rewrite Nat.add_1_r. rewrite seq_S. reflexivity. Qed.
+
+(* what one generation's tail (evaluate invalid, hall of fame, replace, record) preserves *)
+Lemma finish_gen_InvC_gen gen s st1 off newpop :
+  Hist s -> gen = length (s_log s) ->
+  extends (s_st s) st1 -> Forall (honest st1) off ->
+  (forall u, In u newpop -> In u off \/ (truthful (s_st s) u /\ shown_in (s_shown s) u)) ->
+  InvC (finish_gen evaluate fle gen s st1 off newpop).
+Proof.
+  intros I Hg E Hoff Hin. rewrite finish_gen_eq. cbv zeta.
+  set (inv := invalid_of st1 off). set (st2 := fst (eval_list evaluate st1 inv)).
+  assert (Tnew : Forall (truthful st2) newpop).
+  { apply Forall_forall. intros u Hu. apply Hin in Hu. destruct Hu as [Hu|[Hu _]].
+    - apply eval_invalid_members; [exact Hu|]. rewrite Forall_forall in Hoff. auto.
+    - apply eval_list_keeps_truthful. eapply truthful_extends; [exact E|exact Hu]. }
+  pose proof (geno_pairs_known st1 inv (invalid_of_known st1 off)) as [K1 [K2 K3]].
+  constructor; cbn.
+  - exact Tnew.
+  - rewrite map_app, app_length. cbn. rewrite (h_gens s I), seq_snoc, Hg. reflexivity.
+  - apply Forall2_app; [exact (h_nevals s I)|]. constructor; [cbn; symmetry; exact K2|constructor].
+  - apply Forall_app. split; [exact (h_snap s I)|]. constructor; [|constructor].
+    unfold snap_truthful; cbn. apply snap_truthful_of. exact Tnew.
+  - right. eexists; eexists; split; [reflexivity|reflexivity].
+  - apply Forall_app. split.
+    + eapply Forall_impl; [|exact (h_shown_calls s I)]. intros c Hc.
+      eapply Forall_impl; [|exact Hc]. intros x Hx. apply shown_in_app. exact Hx.
+    + constructor; [|constructor]. apply Forall_forall. intros c Hc.
+      apply shown_in_last. apply (invalid_of_incl st1 off). fold inv. rewrite <- K1.
+      apply in_map. exact Hc.
+  - apply Forall_forall. intros u Hu. apply Hin in Hu. destruct Hu as [Hu|[_ Hu]].
+    + apply shown_in_last. exact Hu.
+    + apply shown_in_app. exact Hu.
+Qed.
+
+Lemma finish_gen_InvC gen s st1 off newpop :
+  InvC s -> gen = length (s_log s) ->
+  extends (s_st s) st1 -> Forall (honest st1) off ->
+  incl newpop (s_pop s ++ off) ->
+  InvC (finish_gen evaluate fle gen s st1 off newpop).
+Proof.
+  intros I Hg E Hoff Hin. apply finish_gen_InvC_gen; auto using InvC_Hist.
+  intros u Hu. apply Hin in Hu. apply in_app_or in Hu. destruct Hu as [Hu|Hu]; [right|left; exact Hu].
+  pose proof (ic_pop s I) as P. pose proof (ic_shown_pop s I) as Q. rewrite Forall_forall in P, Q. auto.
+Qed.
+
+(* the evaluation call log of a generation: exactly the individuals of `off` that are invalid after
+   variation, in order; nevals is their number; each once if those are distinct objects *)
+Lemma finish_gen_calls gen s st1 off newpop :
+  let s' := finish_gen evaluate fle gen s st1 off newpop in
+  exists log r,
+    s_calls s' = s_calls s ++ [log] /\ s_log s' = s_log s ++ [r] /\
+    map fst log = invalid_of st1 off /\
+    Forall (fun c => exists i, st1 (fst c) = Some i /\ geno i = snd c) log /\
+    r_gen r = gen /\ r_nevals r = length log /\
+    (NoDup (invalid_of st1 off) -> NoDup (map fst log)).
+Proof.
+  cbv zeta. rewrite finish_gen_eq. cbv zeta. cbn.
+  pose proof (geno_pairs_known st1 _ (invalid_of_known st1 off)) as [K1 [K2 K3]].
+  eexists; eexists. split; [reflexivity|]. split; [reflexivity|].
+  split; [exact K1|]. split; [exact K3|]. split; [reflexivity|]. split; [cbn; symmetry; exact K2|].
+  rewrite K1. auto.
+Qed.
+
+Lemma finish_gen_pop gen s st1 off newpop :
+  s_pop (finish_gen evaluate fle gen s st1 off newpop) = newpop.
+Proof. rewrite finish_gen_eq. reflexivity. Qed.
+
+Lemma finish_gen_log_length gen s st1 off newpop :
+  length (s_log (finish_gen evaluate fle gen s st1 off newpop)) = S (length (s_log s)).
+Proof. rewrite finish_gen_eq. cbn. rewrite app_length. cbn. lia. Qed.
+
+(* ------------------------------------------------------------------ *)
+(* generation 0 *)
+
+Definition init_ok (st : store) (pop : list uid) : Prop := Forall (honest st) pop.
+
+Lemma gen0_InvC st pop : init_ok st pop -> InvC (gen0 evaluate fle (init st pop)).
+Proof.
+  intro H. unfold gen0. apply finish_gen_InvC_gen; cbn.
+  - constructor; cbn; constructor.
+  - reflexivity.
+  - apply extends_refl.
+  - exact H.
+  - auto.
+Qed.
+
+Lemma gen0_pop st pop : s_pop (gen0 evaluate fle (init st pop)) = pop.
+Proof. unfold gen0. apply finish_gen_pop. Qed.
+
+Lemma gen0_log_length st pop : length (s_log (gen0 evaluate fle (init st pop))) = 1.
+Proof. unfold gen0. rewrite finish_gen_log_length. reflexivity. Qed.
+
+(* ------------------------------------------------------------------ *)
+(* oracle answers *)
+
+Definition sel_ok (arg : list uid) (k : nat) (idxs : list nat) : Prop :=
+  length idxs = k /\ Forall (fun i => i < length arg) idxs.
+
+Lemma select_by_incl arg idxs : Forall (fun i => i < length arg) idxs -> incl (select_by arg idxs) arg.
+Proof.
+  intros H u I. unfold select_by in I. apply in_map_iff in I. destruct I as [i [<- I]].
+  rewrite Forall_forall in H. apply nth_In. auto.
+Qed.
+
+Lemma select_by_length arg idxs : length (select_by arg idxs) = length idxs.
+Proof. unfold select_by. apply map_length. Qed.
+
+(* every list made of elements of arg is a selection answer *)
+Lemma incl_select_by (arg l : list uid) :
+  incl l arg -> exists idxs, l = select_by arg idxs /\ Forall (fun i => i < length arg) idxs.
+Proof.
+  induction l as [|x r IH]; intro H.
+  - exists []; split; [reflexivity|constructor].
+  - destruct IH as [idxs [E Fi]]; [intros y Hy; apply H; right; exact Hy|].
+    destruct (In_nth arg x 0 (H x (or_introl eq_refl))) as [i [Li Ni]].
+    exists (i :: idxs). split; [unfold select_by in *; cbn; rewrite Ni; f_equal; exact E|constructor; assumption].
+Qed.
+
+(* The contract of variation (conclusions of property C02, hypotheses here).
+   inp : the list given to varAnd / varOr.  off : the returned objects with their contents. *)
+Record off_ok (st : store) (inp : list uid) (off : list (uid * ind)) : Prop := mk_off_ok {
+  (* a returned object is new, or an existing object that was left untouched *)
+  oo_frame : forall u i, In (u, i) off -> st u = None \/ st u = Some i;
+  (* an object has one content *)
+  oo_fun : forall u i i', In (u, i) off -> In (u, i') off -> i = i';
+  (* a returned object with a valid fitness carries the genotype and fitness of an input individual *)
+  oo_valid : forall u i f, In (u, i) off -> fit i = Some f ->
+             exists p ip, In p inp /\ st p = Some ip /\ geno ip = geno i /\ fit ip = Some f }.
+
+(* the returned objects with an invalid fitness are pairwise distinct objects *)
+Definition off_invalid_distinct (off : list (uid * ind)) : Prop :=
+  NoDup (map fst (filter (fun p => match fit (snd p) with None => true | Some _ => false end) off)).
+
+Lemma add_objs_notin off : forall st u, ~ In u (map fst off) -> add_objs st off u = st u.
+Proof.
+  induction off as [|[u0 i0] r IH]; intros st u N; cbn; [reflexivity|].
+  cbn in N. unfold add_objs in IH. rewrite IH by tauto. apply upd_other. intro; subst; tauto.
+Qed.
+
+Lemma add_objs_in off : forall st u i,
+  (forall i', In (u, i') off -> i' = i) -> In (u, i) off -> add_objs st off u = Some i.
+Proof.
+  induction off as [|[u0 i0] r IH]; intros st u i Hf Hin; [destruct Hin|].
+  cbn. destruct (in_dec Nat.eq_dec u (map fst r)) as [I|N].
+  - apply in_map_iff in I. destruct I as [[u' i'] [E I]]. cbn in E; subst u'.
+    assert (i' = i) by (apply Hf; right; exact I). subst i'.
+    unfold add_objs in IH. apply IH; [intros i' H'; apply Hf; right; exact H'|exact I].
+  - pose proof (add_objs_notin r (upd st u0 i0) u N) as X. unfold add_objs in X. rewrite X.
+    destruct Hin as [E|Hin].
+    + inversion E; subst. apply upd_same.
+    + exfalso. apply N. apply in_map_iff. exists (u, i); auto.
+Qed.
+
+Lemma off_ok_lookup st inp off u i :
+  off_ok st inp off -> In (u, i) off -> add_objs st off u = Some i.
+Proof.
+  intros O I. apply add_objs_in; [|exact I]. intros i' I'. symmetry. eapply oo_fun; eassumption.
+Qed.
+
+Lemma off_ok_extends st inp off : off_ok st inp off -> extends st (add_objs st off).
+Proof.
+  intros O u j H. destruct (in_dec Nat.eq_dec u (map fst off)) as [I|N].
+  - apply in_map_iff in I. destruct I as [[u' i] [E I]]. cbn in E; subst u'.
+    rewrite (off_ok_lookup _ _ _ _ _ O I).
+    destruct (oo_frame _ _ _ O u i I) as [X|X]; congruence.
+  - rewrite add_objs_notin by assumption. exact H.
+Qed.
+
+Lemma off_ok_honest st inp off :
+  off_ok st inp off -> Forall (truthful st) inp ->
+  Forall (honest (add_objs st off)) (map fst off).
+Proof.
+  intros O T. apply Forall_forall. intros u I. apply in_map_iff in I.
+  destruct I as [[u' i] [E I]]. cbn in E; subst u'.
+  exists i. split; [eapply off_ok_lookup; eassumption|].
+  destruct (fit i) as [f|] eqn:Ef; [right|left; reflexivity].
+  destruct (oo_valid _ _ _ O u i f I Ef) as [p [ip [Hp [Sp [Gp Fp]]]]].
+  rewrite Forall_forall in T. destruct (T p Hp) as [j [J1 J2]].
+  rewrite Sp in J1. inversion J1; subst j. rewrite <- Gp. congruence.
+Qed.
+
+(* which of the returned objects are invalid can be read off the answer *)
+Lemma invalid_of_add_objs st inp off :
+  off_ok st inp off ->
+  invalid_of (add_objs st off) (map fst off) =
+  map fst (filter (fun p => match fit (snd p) with None => true | Some _ => false end) off).
+Proof.
+  intro O. unfold invalid_of.
+  assert (X : forall l, incl l off ->
+    filter (is_invalid (add_objs st off)) (map fst l) =
+    map fst (filter (fun p => match fit (snd p) with None => true | Some _ => false end) l)).
+  { induction l as [|[u i] r IH]; intro H; [reflexivity|]. cbn.
+    assert (L : add_objs st off u = Some i) by (eapply off_ok_lookup; [exact O|apply H; left; reflexivity]).
+    unfold is_invalid at 1. rewrite L.
+    rewrite IH by (intros y Hy; apply H; right; exact Hy).
+    destruct (fit i); reflexivity. }
+  apply X. apply incl_refl.
+Qed.
+
+(* ------------------------------------------------------------------ *)
+(* one generation of each population loop preserves the invariant *)
+
+Definition ans_ok_simple (s : state) (a : ans) : Prop :=
+  sel_ok (s_pop s) (length (s_pop s)) (a_sel a) /\
+  off_ok (s_st s) (select_by (s_pop s) (a_sel a)) (a_off a) /\
+  length (a_off a) = length (a_sel a).
+
+Definition ans_ok_plus (mu lam : nat) (s : state) (a : ans) : Prop :=
+  off_ok (s_st s) (s_pop s) (a_off a) /\ length (a_off a) = lam /\
+  sel_ok (s_pop s ++ map fst (a_off a)) mu (a_sel a).
+
+Definition ans_ok_comma (mu lam : nat) (s : state) (a : ans) : Prop :=
+  off_ok (s_st s) (s_pop s) (a_off a) /\ length (a_off a) = lam /\
+  sel_ok (map fst (a_off a)) mu (a_sel a).
+
+(* toolbox.generate returns new, pairwise distinct objects *)
+Definition ans_ok_gu (s : state) (a : ans) : Prop :=
+  (forall u i, In (u, i) (a_off a) -> s_st s u = None) /\ NoDup (map fst (a_off a)).
+
+Lemma pop_truthful_incl s l : InvC s -> incl l (s_pop s) -> Forall (truthful (s_st s)) l.
+Proof.
+  intros I H. apply Forall_forall. intros u Hu. pose proof (ic_pop s I) as P.
+  rewrite Forall_forall in P. auto.
+Qed.
+
+Lemma step_simple_InvC gen s a :
+  InvC s -> gen = length (s_log s) -> ans_ok_simple s a -> InvC (step_simple evaluate fle gen s a).
+Proof.
+  intros I Hg [[S1 S2] [O L]]. unfold step_simple. apply finish_gen_InvC; auto.
+  - eapply off_ok_extends; exact O.
+  - eapply off_ok_honest; [exact O|]. apply pop_truthful_incl; [exact I|apply select_by_incl; exact S2].
+  - apply incl_appr, incl_refl.
+Qed.
+
+Lemma step_plus_InvC mu lam gen s a :
+  InvC s -> gen = length (s_log s) -> ans_ok_plus mu lam s a -> InvC (step_plus evaluate fle gen s a).
+Proof.
+  intros I Hg [O [L [S1 S2]]]. unfold step_plus. apply finish_gen_InvC; auto.
+  - eapply off_ok_extends; exact O.
+  - eapply off_ok_honest; [exact O|]. apply pop_truthful_incl; [exact I|apply incl_refl].
+  - apply select_by_incl; exact S2.
+Qed.
+
+Lemma step_comma_InvC mu lam gen s a :
+  InvC s -> gen = length (s_log s) -> ans_ok_comma mu lam s a -> InvC (step_comma evaluate fle gen s a).
+Proof.
+  intros I Hg [O [L [S1 S2]]]. unfold step_comma. apply finish_gen_InvC; auto.
+  - eapply off_ok_extends; exact O.
+  - eapply off_ok_honest; [exact O|]. apply pop_truthful_incl; [exact I|apply incl_refl].
+  - eapply incl_tran; [apply select_by_incl; exact S2|apply incl_appr, incl_refl].
+Qed.
+
+(* generate-update: every generated individual is evaluated, whatever its fitness *)
+Lemma step_gu_eq gen s a :
+  step_gu evaluate fle gen s a =
+  let population := map fst (a_off a) in
+  let st1 := add_objs (s_st s) (a_off a) in
+  let st2 := fst (eval_list evaluate st1 population) in
+  let best := hof_update fle (s_best s) st2 population in
+  mkstate st2 population (s_calls s ++ [geno_pairs st1 population])
+          (s_log s ++ [mkrec gen (length population) (snap st2 population) best])
+          (s_shown s ++ [population]) best.
+Proof.
+  unfold step_gu. rewrite <- eval_list_log.
+  destruct (eval_list evaluate (add_objs (s_st s) (a_off a)) (map fst (a_off a))) as [st2 log]. reflexivity.
+Qed.
+
+Lemma nodup_fst_fun {B} (l : list (uid * B)) u i i' :
+  NoDup (map fst l) -> In (u, i) l -> In (u, i') l -> i = i'.
+Proof.
+  induction l as [|[v j] r IH]; intros N I1 I2; [destruct I1|].
+  cbn in N. inversion N as [|? ? N1 N2]; subst.
+  destruct I1 as [E1|I1], I2 as [E2|I2].
+  - congruence.
+  - inversion E1; subst. exfalso. apply N1. apply in_map_iff. exists (u, i'); auto.
+  - inversion E2; subst. exfalso. apply N1. apply in_map_iff. exists (u, i); auto.
+  - auto.
+Qed.
+
+Lemma step_gu_InvC gen s a :
+  InvC s -> gen = length (s_log s) -> ans_ok_gu s a -> InvC (step_gu evaluate fle gen s a).
+Proof.
+  intros I Hg [Fr Nd]. rewrite step_gu_eq. cbv zeta.
+  set (pop := map fst (a_off a)). set (st1 := add_objs (s_st s) (a_off a)).
+  set (st2 := fst (eval_list evaluate st1 pop)).
+  assert (Kn : Forall (fun u => st1 u <> None) pop).
+  { apply Forall_forall. intros u Hu. apply in_map_iff in Hu. destruct Hu as [[u' i] [E Hu]]. cbn in E; subst u'.
+    unfold st1. rewrite (add_objs_in (a_off a) (s_st s) u i); [congruence| |exact Hu].
+    intros i' Hi'. eapply nodup_fst_fun; eassumption. }
+  assert (Tnew : Forall (truthful st2) pop).
+  { apply Forall_forall. intros u Hu. apply eval_list_truthful; [exact Hu|].
+    rewrite Forall_forall in Kn. auto. }
+  pose proof (geno_pairs_known st1 pop Kn) as [K1 [K2 K3]].
+  pose proof (InvC_Hist s I) as H.
+  constructor; cbn.
+  - exact Tnew.
+  - rewrite map_app, app_length. cbn. rewrite (h_gens s H), seq_snoc, Hg. reflexivity.
+  - apply Forall2_app; [exact (h_nevals s H)|]. constructor; [cbn; symmetry; exact K2|constructor].
+  - apply Forall_app. split; [exact (h_snap s H)|]. constructor; [|constructor].
+    unfold snap_truthful; cbn. apply snap_truthful_of. exact Tnew.
+  - right. eexists; eexists; split; reflexivity.
+  - apply Forall_app. split.
+    + eapply Forall_impl; [|exact (h_shown_calls s H)]. intros c Hc.
+      eapply Forall_impl; [|exact Hc]. intros x Hx. apply shown_in_app. exact Hx.
+    + constructor; [|constructor]. apply Forall_forall. intros c Hc.
+      apply shown_in_last. rewrite <- K1. apply in_map. exact Hc.
+  - apply Forall_forall. intros u Hu. apply shown_in_last. exact Hu.
+Qed.
+
+Lemma step_gu_calls gen s a :
+  ans_ok_gu s a ->
+  let s' := step_gu evaluate fle gen s a in
+  exists log r,
+    s_calls s' = s_calls s ++ [log] /\ s_log s' = s_log s ++ [r] /\
+    map fst log = map fst (a_off a) /\ NoDup (map fst log) /\
+    Forall (fun c => exists i, In (fst c, i) (a_off a) /\ geno i = snd c) log /\
+    r_gen r = gen /\ r_nevals r = length log /\ s_pop s' = map fst (a_off a).
+Proof.
+  intros [Fr Nd]. cbv zeta. rewrite step_gu_eq. cbv zeta. cbn.
+  set (pop := map fst (a_off a)). set (st1 := add_objs (s_st s) (a_off a)).
+  assert (Lk : forall u i, In (u, i) (a_off a) -> st1 u = Some i).
+  { intros u i Hu. unfold st1. apply add_objs_in; [|exact Hu].
+    intros i' Hi'. eapply nodup_fst_fun; eassumption. }
+  assert (Kn : Forall (fun u => st1 u <> None) pop).
+  { apply Forall_forall. intros u Hu. apply in_map_iff in Hu. destruct Hu as [[u' i] [E Hu]]. cbn in E; subst u'.
+    rewrite (Lk u i Hu). congruence. }
+  pose proof (geno_pairs_known st1 pop Kn) as [K1 [K2 K3]].
+  eexists; eexists. split; [reflexivity|]. split; [reflexivity|].
+  split; [exact K1|]. split; [rewrite K1; exact Nd|]. split.
+  - apply Forall_forall. intros c Hc. rewrite Forall_forall in K3. destruct (K3 c Hc) as [i [S1 S2]].
+    exists i. split; [|exact S2].
+    assert (Hin : In (fst c) pop) by (rewrite <- K1; apply in_map; exact Hc).
+    apply in_map_iff in Hin. destruct Hin as [[u' i'] [E Hu]]. cbn in E. subst u'.
+    rewrite (Lk _ _ Hu) in S1. inversion S1; subst. exact Hu.
+  - split; [reflexivity|]. split; [cbn; symmetry; exact K2|reflexivity].
+Qed.
+
+(* ------------------------------------------------------------------ *)
+(* runs *)
+
+Section Run.
+Context {A : Type}.
+Variable step : nat -> state -> A -> state.
+Variable ok : state -> A -> Prop.
+
+(* every oracle answer of the run satisfies its contract w.r.t. the state it is given in *)
+Fixpoint run_ok (gen : nat) (s : state) (l : list A) : Prop :=
+  match l with
+  | [] => True
+  | a :: r => ok s a /\ run_ok (S gen) (step gen s a) r
+  end.
+
+Lemma run_from_app l1 : forall l2 gen s,
+  run_from step gen s (l1 ++ l2) = run_from step (gen + length l1) (run_from step gen s l1) l2.
+Proof.
+  induction l1 as [|a r IH]; intros l2 gen s; cbn.
+  - rewrite Nat.add_0_r. reflexivity.
+  - rewrite IH. f_equal. lia.
+Qed.
+
+Lemma run_ok_app l1 : forall l2 gen s,
+  run_ok gen s (l1 ++ l2) ->
+  run_ok gen s l1 /\ run_ok (gen + length l1) (run_from step gen s l1) l2.
+Proof.
+  induction l1 as [|a r IH]; intros l2 gen s H; cbn in *.
+  - rewrite Nat.add_0_r. auto.
+  - destruct H as [H1 H2]. destruct (IH _ _ _ H2) as [H3 H4]. repeat split; auto.
+    replace (gen + S (length r)) with (S gen + length r) by lia. exact H4.
+Qed.
+
+Lemma run_inv (P : nat -> state -> Prop) :
+  (forall gen s a, P gen s -> ok s a -> P (S gen) (step gen s a)) ->
+  forall l gen s, P gen s -> run_ok gen s l -> P (gen + length l) (run_from step gen s l).
+Proof.
+  intros Hstep. induction l as [|a r IH]; intros gen s HP Hok; cbn.
+  - rewrite Nat.add_0_r. exact HP.
+  - destruct Hok as [H1 H2]. replace (gen + S (length r)) with (S gen + length r) by lia.
+    apply IH; [apply Hstep; assumption|exact H2].
+Qed.
+
+(* the logbook only grows: the records of an earlier boundary are a prefix of the final logbook *)
+Lemma run_log_prefix :
+  (forall gen s a, exists r c, s_log (step gen s a) = s_log s ++ [r] /\ s_calls (step gen s a) = s_calls s ++ [c]) ->
+  forall l gen s, exists rs cs, s_log (run_from step gen s l) = s_log s ++ rs /\
+                                s_calls (run_from step gen s l) = s_calls s ++ cs /\
+                                length rs = length l /\ length cs = length l.
+Proof.
+  intros Hstep. induction l as [|a r IH]; intros gen s; cbn.
+  - exists [], []. rewrite !app_nil_r. auto.
+  - destruct (IH (S gen) (step gen s a)) as [rs [cs [E1 [E2 [L1 L2]]]]].
+    destruct (Hstep gen s a) as [r0 [c0 [F1 F2]]].
+    exists (r0 :: rs), (c0 :: cs). rewrite E1, E2, F1, F2, <- !app_assoc. cbn. auto.
+Qed.
+
+End Run.
+
+(* ------------------------------------------------------------------ *)
+(* the evaluation call log of one generation after varAnd / varOr *)
+
+Definition inv_content (p : uid * ind) : bool := match fit (snd p) with None => true | Some _ => false end.
+
+Lemma var_calls gen s inp off newpop :
+  off_ok (s_st s) inp off ->
+  let s' := finish_gen evaluate fle gen s (add_objs (s_st s) off) (map fst off) newpop in
+  exists log r,
+    s_calls s' = s_calls s ++ [log] /\ s_log s' = s_log s ++ [r] /\
+    (* exactly the returned objects whose fitness is invalid, in order *)
+    map fst log = map fst (filter inv_content off) /\
+    (* called with their genotype *)
+    Forall (fun c => exists i, In (fst c, i) off /\ fit i = None /\ geno i = snd c) log /\
+    r_gen r = gen /\ r_nevals r = length log /\
+    (* each once *)
+    (off_invalid_distinct off -> NoDup (map fst log)).
+Proof.
+  intro O. cbv zeta. unfold inv_content.
+  destruct (finish_gen_calls gen s (add_objs (s_st s) off) (map fst off) newpop)
+    as [log [r [E1 [E2 [E3 [E4 [E5 [E6 E7]]]]]]]].
+  exists log, r. rewrite (invalid_of_add_objs _ _ _ O) in E3, E7.
+  repeat (split; [assumption|]). split; [|split; [assumption|split; [assumption|exact E7]]].
+  apply Forall_forall. intros c Hc. rewrite Forall_forall in E4. destruct (E4 c Hc) as [i [S1 S2]].
+  assert (Hin : In (fst c) (map fst log)) by (apply in_map; exact Hc).
+  rewrite E3 in Hin.
+  apply in_map_iff in Hin. destruct Hin as [[u i'] [Eu Hf]]. cbn in Eu. subst u.
+  apply filter_In in Hf. destruct Hf as [Hf1 Hf2].
+  rewrite (off_ok_lookup _ _ _ _ _ O Hf1) in S1. inversion S1; subst i'.
+  exists i. repeat split; [exact Hf1| |exact S2].
+  cbn in Hf2. destruct (fit i); [discriminate|reflexivity].
+Qed.
+
+Lemma gen0_calls st pop :
+  let s' := gen0 evaluate fle (init st pop) in
+  exists log r,
+    s_calls s' = [log] /\ s_log s' = [r] /\
+    map fst log = invalid_of st pop /\
+    Forall (fun c => exists i, st (fst c) = Some i /\ geno i = snd c) log /\
+    r_gen r = 0 /\ r_nevals r = length log /\
+    (NoDup (invalid_of st pop) -> NoDup (map fst log)).
+Proof.
+  cbv zeta. unfold gen0.
+  destruct (finish_gen_calls 0 (init st pop) st pop pop) as [log [r H]]. cbn in H.
+  exists log, r. exact H.
+Qed.
+
+(* ------------------------------------------------------------------ *)
+(* whole runs of the four loops of deap.algorithms *)
+
+Lemma step_appends_simple gen s a :
+  exists r c, s_log (step_simple evaluate fle gen s a) = s_log s ++ [r] /\
+              s_calls (step_simple evaluate fle gen s a) = s_calls s ++ [c].
+Proof. unfold step_simple. rewrite finish_gen_eq. cbn. eauto. Qed.
+Lemma step_appends_plus gen s a :
+  exists r c, s_log (step_plus evaluate fle gen s a) = s_log s ++ [r] /\
+              s_calls (step_plus evaluate fle gen s a) = s_calls s ++ [c].
+Proof. unfold step_plus. rewrite finish_gen_eq. cbn. eauto. Qed.
+Lemma step_appends_comma gen s a :
+  exists r c, s_log (step_comma evaluate fle gen s a) = s_log s ++ [r] /\
+              s_calls (step_comma evaluate fle gen s a) = s_calls s ++ [c].
+Proof. unfold step_comma. rewrite finish_gen_eq. cbn. eauto. Qed.
+Lemma step_appends_gu gen s a :
+  exists r c, s_log (step_gu evaluate fle gen s a) = s_log s ++ [r] /\
+              s_calls (step_gu evaluate fle gen s a) = s_calls s ++ [c].
+Proof. rewrite step_gu_eq. cbn. eauto. Qed.
+
+Theorem simple_inv st pop answers :
+  init_ok st pop ->
+  run_ok (step_simple evaluate fle) ans_ok_simple 1 (gen0 evaluate fle (init st pop)) answers ->
+  let s := ea_simple evaluate fle st pop answers in
+  InvC s /\ length (s_log s) = S (length answers) /\ length (s_pop s) = length pop.
+Proof.
+  intros H0 Hok. cbv zeta. unfold ea_simple.
+  apply (run_inv (step_simple evaluate fle) ans_ok_simple
+           (fun gen s => InvC s /\ length (s_log s) = gen /\ length (s_pop s) = length pop)); [| |exact Hok].
+  - intros gen s a [I [L P]] Ha. split; [apply step_simple_InvC; auto|].
+    unfold step_simple. rewrite finish_gen_log_length, finish_gen_pop, map_length.
+    destruct Ha as [[S1 S2] [O La]]. split; [lia|]. rewrite La, S1. exact P.
+  - split; [apply gen0_InvC; exact H0|]. rewrite gen0_log_length, gen0_pop. auto.
+Qed.
+
+Theorem plus_inv mu lam st pop answers :
+  init_ok st pop ->
+  run_ok (step_plus evaluate fle) (ans_ok_plus mu lam) 1 (gen0 evaluate fle (init st pop)) answers ->
+  let s := ea_plus evaluate fle st pop answers in
+  InvC s /\ length (s_log s) = S (length answers) /\
+  length (s_pop s) = match answers with [] => length pop | _ => mu end.
+Proof.
+  intros H0 Hok. cbv zeta. unfold ea_plus.
+  pose proof (run_inv (step_plus evaluate fle) (ans_ok_plus mu lam)
+           (fun gen s => InvC s /\ length (s_log s) = gen /\ 1 <= gen /\
+                         length (s_pop s) = if gen =? 1 then length pop else mu)) as R.
+  destruct (R) with (l := answers) (gen := 1) (s := gen0 evaluate fle (init st pop)) as [I [L [_ P]]]; [| |exact Hok|].
+  - intros gen s a [I [L [Gg P]]] Ha. split; [eapply step_plus_InvC; eauto|].
+    unfold step_plus. rewrite finish_gen_log_length, finish_gen_pop, select_by_length.
+    destruct Ha as [O [La [S1 S2]]]. split; [lia|]. split; [lia|].
+    destruct (Nat.eqb_spec (S gen) 1); [lia|exact S1].
+  - split; [apply gen0_InvC; exact H0|]. rewrite gen0_log_length, gen0_pop. auto.
+  - split; [exact I|]. split; [exact L|]. rewrite P. destruct answers; cbn; [reflexivity|].
+    destruct (Nat.eqb_spec (S (S (length answers))) 1); [lia|reflexivity].
+Qed.
+
+Theorem comma_inv mu lam st pop answers :
+  init_ok st pop ->
+  run_ok (step_comma evaluate fle) (ans_ok_comma mu lam) 1 (gen0 evaluate fle (init st pop)) answers ->
+  let s := ea_comma evaluate fle st pop answers in
+  InvC s /\ length (s_log s) = S (length answers) /\
+  length (s_pop s) = match answers with [] => length pop | _ => mu end.
+Proof.
+  intros H0 Hok. cbv zeta. unfold ea_comma.
+  pose proof (run_inv (step_comma evaluate fle) (ans_ok_comma mu lam)
+           (fun gen s => InvC s /\ length (s_log s) = gen /\ 1 <= gen /\
+                         length (s_pop s) = if gen =? 1 then length pop else mu)) as R.
+  destruct (R) with (l := answers) (gen := 1) (s := gen0 evaluate fle (init st pop)) as [I [L [_ P]]]; [| |exact Hok|].
+  - intros gen s a [I [L [Gg P]]] Ha. split; [eapply step_comma_InvC; eauto|].
+    unfold step_comma. rewrite finish_gen_log_length, finish_gen_pop, select_by_length.
+    destruct Ha as [O [La [S1 S2]]]. split; [lia|]. split; [lia|].
+    destruct (Nat.eqb_spec (S gen) 1); [lia|exact S1].
+  - split; [apply gen0_InvC; exact H0|]. rewrite gen0_log_length, gen0_pop. auto.
+  - split; [exact I|]. split; [exact L|]. rewrite P. destruct answers; cbn; [reflexivity|].
+    destruct (Nat.eqb_spec (S (S (length answers))) 1); [lia|reflexivity].
+Qed.
+
+Lemma init_empty_InvC : InvC (init (empty_store : store) []).
+Proof. constructor; cbn; try constructor; reflexivity. Qed.
+
+(* generate-update records generations 0 .. ngen-1 (there is no generation-0 evaluation) *)
+Theorem gu_inv answers :
+  run_ok (step_gu evaluate fle) ans_ok_gu 0 (init empty_store []) answers ->
+  let s := ea_gu evaluate fle answers in
+  InvC s /\ length (s_log s) = length answers.
+Proof.
+  intros Hok. cbv zeta. unfold ea_gu.
+  apply (run_inv (step_gu evaluate fle) ans_ok_gu
+           (fun gen s => InvC s /\ length (s_log s) = gen)); [| |exact Hok].
+  - intros gen s a [I L] Ha. split; [apply step_gu_InvC; auto|].
+    rewrite step_gu_eq. cbn. rewrite app_length. cbn. lia.
+  - split; [apply init_empty_InvC|reflexivity].
+Qed.
+
+(* ------------------------------------------------------------------ *)
+(* gp.harm: the generator _genpop *)
+
+Lemma bind_ok {A B} (r : res A) (f : A -> res B) x :
+  bind r f = Ok x -> exists a, r = Ok a /\ f a = Ok x.
+Proof. destruct r; cbn; intro H; try discriminate. eauto. Qed.
+
+Lemma guard_ok b c : guard b c = Ok tt -> b = true.
+Proof. destruct b; cbn; [reflexivity|discriminate]. Qed.
+
+Lemma bind_guard {B} b c (f : unit -> res B) x :
+  bind (guard b c) f = Ok x -> b = true /\ f tt = Ok x.
+Proof. destruct b; cbn; [auto|discriminate]. Qed.
+
+Lemma uid_list_eqb_eq a : forall b, uid_list_eqb a b = true -> a = b.
+Proof.
+  unfold uid_list_eqb. induction a as [|x a IH]; destruct b as [|y b]; cbn; intro H; try discriminate; [reflexivity|].
+  apply andb_true_iff in H. destruct H as [H1 H2]. apply andb_true_iff in H2. destruct H2 as [H2 H3].
+  apply Nat.eqb_eq in H2. subst y. f_equal. apply IH. rewrite H3. cbn in H1. rewrite H1. reflexivity.
+Qed.
+
+Lemma clone_ok st src dst st1 :
+  clone st src dst = Ok st1 -> exists i, st src = Some i /\ st dst = None /\ st1 = upd st dst i.
+Proof.
+  unfold clone, is_fresh. destruct (st src) as [i|]; [|discriminate].
+  destruct (st dst) eqn:E; [discriminate|]. intro H. inversion H. eauto.
+Qed.
+
+Lemma extends_upd_none st u i : st u = None -> extends st (upd st u i).
+Proof. intro N. apply extends_upd_fresh; [apply extends_refl|exact N]. Qed.
+
+Notation ev := (@ev G).
+
+Lemma accept_spec use x (evs : list ev) d evs' :
+  accept use x evs = Ok (d, evs') ->
+  length evs' <= length evs /\ (use = true -> length evs' < length evs).
+Proof.
+  unfold accept. destruct use.
+  - destruct evs as [|e r]; [discriminate|]. destruct e; try discriminate.
+    destruct (Nat.eqb x x0); [|discriminate]. intro H; inversion H; subst. cbn. split; [lia|intros; lia].
+  - intro H; inversion H; subst. split; [lia|discriminate].
+Qed.
+
+Lemma accept_push_spec use prod x (evs : list ev) prod' evs' :
+  accept_push use prod x evs = Ok (prod', evs') ->
+  (prod' = prod \/ prod' = prod ++ [x]) /\
+  length evs' <= length evs /\ (use = true -> length evs' < length evs).
+Proof.
+  unfold accept_push. intro H. apply bind_ok in H. destruct H as [[d e] [H1 H2]].
+  inversion H2; subst. apply accept_spec in H1. split; [|exact H1].
+  destruct d; cbn; auto.
+Qed.
+
+(* a sub-sequence of the (one or two) aspirants is appended *)
+Lemma accept_cands_spec use n prod cands (evs : list ev) prod' evs' :
+  accept_cands use n prod cands evs = Ok (prod', evs') ->
+  length cands <= 2 ->
+  exists sub, prod' = prod ++ sub /\ incl sub cands /\ (NoDup cands -> NoDup sub) /\
+              length evs' <= length evs /\
+              (length prod < n -> length prod' <= n).
+Proof.
+  unfold accept_cands. destruct cands as [|x [|y rest]]; intros H L.
+  - inversion H; subst. exists []. rewrite app_nil_r. repeat split; auto using incl_nil_l; try lia.
+  - apply bind_ok in H. destruct H as [[p1 e1] [H1 H2]]. inversion H2; subst.
+    apply accept_push_spec in H1. destruct H1 as [[->| ->] [L1 _]].
+    + exists []. rewrite app_nil_r. repeat split; auto using incl_nil_l; try lia. intros; constructor.
+    + exists [x]. repeat split; auto using incl_refl; try lia. rewrite app_length; cbn; lia.
+  - destruct rest; [|cbn in L; lia].
+    apply bind_ok in H. destruct H as [[p1 e1] [H1 H2]].
+    apply accept_push_spec in H1. destruct H1 as [E1 [L1 _]].
+    destruct (length p1 <? n) eqn:Lt.
+    + apply accept_push_spec in H2. destruct H2 as [E2 [L2 _]]. apply Nat.ltb_lt in Lt.
+      destruct E1 as [->| ->], E2 as [->| ->].
+      * exists []. rewrite app_nil_r. repeat split; auto using incl_nil_l; try lia. intros; constructor.
+      * exists [y]. repeat split; try lia.
+        -- intros z [<-|[]]; right; left; reflexivity.
+        -- intros; constructor; [intros []|constructor].
+        -- rewrite app_length; cbn; lia.
+      * exists [x]. repeat split; try lia.
+        -- intros z [<-|[]]; left; reflexivity.
+        -- intros; constructor; [intros []|constructor].
+      * exists [x; y]. rewrite <- app_assoc. repeat split; auto using incl_refl; try lia.
+        rewrite !app_length in *; cbn in *; lia.
+    + inversion H2; subst. apply Nat.ltb_ge in Lt.
+      destruct E1 as [->| ->].
+      * exists []. rewrite app_nil_r. repeat split; auto using incl_nil_l; try lia. intros; constructor.
+      * exists [x]. repeat split; try lia.
+        -- intros z [<-|[]]; left; reflexivity.
+        -- intros; constructor; [intros []|constructor].
+        -- rewrite app_length; cbn; lia.
+Qed.
+
+(* an individual produced by the generator: a new object whose fitness is invalid, or which
+   carries genotype and fitness of a member of the population *)
+Definition copy_of (st0 : store) (pop : list uid) (i : ind) : Prop :=
+  fit i = None \/ exists p ip, In p pop /\ st0 p = Some ip /\ geno ip = geno i /\ fit ip = fit i.
+
+Lemma forallb_lt_Forall (l : list nat) n :
+  forallb (fun i => i <? n) l = true -> Forall (fun i => i < n) l.
+Proof.
+  intro H. apply Forall_forall. intros i Hi. rewrite forallb_forall in H. apply Nat.ltb_lt. auto.
+Qed.
+
+Lemma candidates_spec st0 pop cxpb mutpb st evs st' cands evs' :
+  (forall p, In p pop -> st0 p <> None) -> extends st0 st ->
+  candidates pop cxpb mutpb st evs = Ok (st', cands, evs') ->
+  extends st st' /\ NoDup cands /\
+  Forall (fun x => st x = None /\ exists i, st' x = Some i /\ copy_of st0 pop i) cands /\
+  length evs' < length evs /\ length cands <= 2.
+Proof.
+  intros Kp E H. unfold candidates in H.
+  destruct evs as [|e evs1]; [discriminate|]. destruct e as [u| | | | |]; try discriminate.
+  destruct (Qltb u cxpb).
+  - (* crossover *)
+    destruct evs1 as [|e evs1]; [discriminate|]. destruct e as [|arg k idxs| | | |]; try discriminate.
+    destruct evs1 as [|e evs1]; [discriminate|]. destruct e as [| |s1 c1| | |]; try discriminate.
+    destruct evs1 as [|e evs1]; [discriminate|]. destruct e as [| |s2 c2| | |]; try discriminate.
+    destruct evs1 as [|e evs2]; [discriminate|]. destruct e as [| | |i1 i2 o1 o2| |]; try discriminate.
+    apply bind_guard in H. destruct H as [Hb H].
+    apply bind_ok in H. destruct H as [st1 [C1 H]].
+    apply bind_ok in H. destruct H as [st2 [C2 H]].
+    apply bind_guard in H. destruct H as [Hc H]. inversion H; subst st' cands evs'. clear H.
+    apply clone_ok in C1. destruct C1 as [j1 [S1 [N1 ->]]].
+    apply clone_ok in C2. destruct C2 as [j2 [S2 [N2 E2]]].
+    apply andb_true_iff in Hc. destruct Hc as [Hc Hne].
+    apply andb_true_iff in Hc. destruct Hc as [Ho1 Ho2].
+    apply negb_true_iff in Hne. apply Nat.eqb_neq in Hne.
+    assert (Nc2 : st c2 = None).
+    { destruct (Nat.eq_dec c2 c1) as [->|D]; [rewrite upd_same in N2; discriminate|].
+      rewrite upd_other in N2 by assumption. exact N2. }
+    assert (X2 : extends st st2).
+    { subst st2. eapply extends_trans; [apply extends_upd_none; exact N1|apply extends_upd_none; exact N2]. }
+    assert (Fr : forall o : uid * G,
+               Nat.eqb (fst o) c1 || Nat.eqb (fst o) c2 || is_fresh st2 (fst o) = true -> st (fst o) = None).
+    { intros o Ho. apply orb_true_iff in Ho. destruct Ho as [Ho|Ho].
+      - apply orb_true_iff in Ho. destruct Ho as [Ho|Ho]; apply Nat.eqb_eq in Ho; rewrite Ho; assumption.
+      - unfold is_fresh in Ho. destruct (st2 (fst o)) eqn:Eo; [discriminate|].
+        eapply extends_none; [exact X2|exact Eo]. }
+    pose proof (Fr o1 Ho1) as F1. pose proof (Fr o2 Ho2) as F2.
+    split; [|split; [|split; [|split]]].
+    + unfold set_varied. apply extends_upd_fresh; [apply extends_upd_fresh; [exact X2|exact F1]|exact F2].
+    + constructor; [intros [X|[]]; congruence|constructor; [intros []|constructor]].
+    + constructor; [|constructor; [|constructor]].
+      * split; [exact F1|]. unfold set_varied. rewrite upd_other by exact Hne. rewrite upd_same.
+        eexists; split; [reflexivity|left; reflexivity].
+      * split; [exact F2|]. unfold set_varied. rewrite upd_same.
+        eexists; split; [reflexivity|left; reflexivity].
+    + cbn. lia.
+    + cbn. lia.
+  - (* mutation or reproduction *)
+    destruct evs1 as [|e evs1]; [discriminate|]. destruct e as [|arg k idxs| | | |]; try discriminate.
+    destruct evs1 as [|e evs2]; [discriminate|]. destruct e as [| |s1 c1| | |]; try discriminate.
+    apply bind_guard in H. destruct H as [Hb H].
+    apply bind_ok in H. destruct H as [st1 [C1 H]].
+    apply clone_ok in C1. destruct C1 as [j1 [S1 [N1 ->]]].
+    apply andb_true_iff in Hb. destruct Hb as [Hb Hs].
+    apply andb_true_iff in Hb. destruct Hb as [Hb Hr].
+    apply uid_list_eqb_eq in Hs. apply forallb_lt_Forall in Hr.
+    assert (Ps : In s1 pop).
+    { apply (select_by_incl pop idxs Hr). rewrite Hs. left; reflexivity. }
+    destruct (Qltb (u - cxpb) mutpb).
+    + destruct evs2 as [|e evs3]; [discriminate|]. destruct e as [| | | |i o|]; try discriminate.
+      apply bind_guard in H. destruct H as [Hc H]. inversion H; subst st' cands evs'. clear H.
+      apply andb_true_iff in Hc. destruct Hc as [_ Hc].
+      assert (F1 : st (fst o) = None).
+      { apply orb_true_iff in Hc. destruct Hc as [Hc|Hc].
+        - apply Nat.eqb_eq in Hc. rewrite Hc. exact N1.
+        - unfold is_fresh in Hc. destruct (upd st c1 j1 (fst o)) eqn:Eo; [discriminate|].
+          eapply extends_none; [apply extends_upd_none; exact N1|exact Eo]. }
+      split; [|split; [|split; [|split]]].
+      * unfold set_varied. apply extends_upd_fresh; [apply extends_upd_none; exact N1|exact F1].
+      * constructor; [intros []|constructor].
+      * constructor; [|constructor]. split; [exact F1|]. unfold set_varied. rewrite upd_same.
+        eexists; split; [reflexivity|left; reflexivity].
+      * cbn. lia.
+      * cbn. lia.
+    + inversion H; subst st' cands evs'. clear H.
+      split; [|split; [|split; [|split]]].
+      * apply extends_upd_none; exact N1.
+      * constructor; [intros []|constructor].
+      * constructor; [|constructor]. split; [exact N1|]. rewrite upd_same.
+        exists j1; split; [reflexivity|]. right.
+        destruct (st0 s1) as [ip|] eqn:E0; [|exfalso; apply (Kp s1 Ps); exact E0].
+        pose proof (E _ _ E0) as X. rewrite S1 in X. inversion X; subst ip.
+        exists s1, j1. auto.
+      * cbn. lia.
+      * cbn. lia.
+Qed.
+
+Definition good (st0 : store) (pop : list uid) (st : store) (x : uid) : Prop :=
+  st0 x = None /\ exists i, st x = Some i /\ copy_of st0 pop i.
+
+Record GInv (st0 : store) (pop : list uid) (st : store) (l : list uid) : Prop := mkGInv {
+  gi_ext : extends st0 st;
+  gi_nodup : NoDup l;
+  gi_good : Forall (good st0 pop st) l }.
+
+Lemma good_mono st0 pop st st' x : extends st st' -> good st0 pop st x -> good st0 pop st' x.
+Proof. intros E [N [i [H1 H2]]]. split; [exact N|]. exists i; split; auto. Qed.
+
+Lemma NoDup_app_intro {A} (l1 l2 : list A) :
+  NoDup l1 -> NoDup l2 -> (forall x, In x l1 -> In x l2 -> False) -> NoDup (l1 ++ l2).
+Proof.
+  induction l1 as [|a r IH]; intros N1 N2 D; cbn; [exact N2|].
+  inversion N1; subst. constructor.
+  - intro H. apply in_app_or in H. destruct H as [H|H]; [contradiction|]. apply (D a); [left; reflexivity|exact H].
+  - apply IH; auto. intros x Hx1 Hx2. apply (D x); [right; exact Hx1|exact Hx2].
+Qed.
+
+Lemma NoDup_app_left {A} (l1 l2 : list A) : NoDup (l1 ++ l2) -> NoDup l1.
+Proof.
+  induction l1 as [|a r IH]; cbn; intro H; [constructor|]. inversion H; subst.
+  constructor; [intro X; apply H2; apply in_or_app; left; exact X|apply IH; assumption].
+Qed.
+
+Lemma genpop_unfold fuel pop cxpb mutpb n use st prod pick (evs : list ev) :
+  genpop fuel pop cxpb mutpb n use st prod pick evs =
+  if (n <=? length prod)%nat then Ok (st, prod, pick, evs) else
+  match fuel with
+  | O => OutOfFuel
+  | S fuel' =>
+    match pick with
+    | aspirant :: pick' =>
+        bind (accept_push use prod aspirant evs) (fun '(prod1, evs1) =>
+        genpop fuel' pop cxpb mutpb n use st prod1 pick' evs1)
+    | [] =>
+        bind (candidates pop cxpb mutpb st evs) (fun '(st1, cands, evs1) =>
+        bind (accept_cands use n prod cands evs1) (fun '(prod1, evs2) =>
+        genpop fuel' pop cxpb mutpb n use st1 prod1 [] evs2))
+    end
+  end.
+Proof. destruct fuel; reflexivity. Qed.
+
+Lemma genpop_spec st0 pop cxpb mutpb n use :
+  (forall p, In p pop -> st0 p <> None) ->
+  forall fuel st prod pick evs st' prod' pick' evs',
+  GInv st0 pop st (prod ++ pick) -> length prod <= n ->
+  genpop fuel pop cxpb mutpb n use st prod pick evs = Ok (st', prod', pick', evs') ->
+  GInv st0 pop st' (prod' ++ pick') /\ length prod' = n /\ length evs' <= length evs.
+Proof.
+  intros Kp. induction fuel as [|fuel IH]; intros st prod pick evs st' prod' pick' evs' GI Ln H;
+    rewrite genpop_unfold in H; destruct (n <=? length prod) eqn:Le.
+  - inversion H; subst. apply Nat.leb_le in Le. split; [exact GI|]. split; lia.
+  - discriminate.
+  - inversion H; subst. apply Nat.leb_le in Le. split; [exact GI|]. split; lia.
+  - apply Nat.leb_gt in Le. destruct pick as [|asp pick0].
+    + apply bind_ok in H. destruct H as [[[st1 cands] evs1] [C H]].
+      apply bind_ok in H. destruct H as [[prod1 evs2] [A H]].
+      destruct GI as [E Nd Gd]. rewrite app_nil_r in Nd, Gd.
+      destruct (candidates_spec st0 pop cxpb mutpb st evs st1 cands evs1 Kp E C) as [X [Nc [Fc [Lc L2]]]].
+      destruct (accept_cands_spec use n prod cands evs1 prod1 evs2 A L2) as [sub [-> [Is [Ns [Le2 Lp]]]]].
+      apply IH in H.
+      * destruct H as [H1 [H2 H3]]. split; [exact H1|]. split; [exact H2|]. lia.
+      * rewrite app_nil_r. constructor.
+        -- eapply extends_trans; eassumption.
+        -- apply NoDup_app_intro; [exact Nd|apply Ns; exact Nc|].
+           intros x Hx Hs. rewrite Forall_forall in Gd, Fc.
+           destruct (Gd x Hx) as [_ [i [Si _]]]. destruct (Fc x (Is x Hs)) as [Sn _]. congruence.
+        -- apply Forall_app. split.
+           ++ eapply Forall_impl; [|exact Gd]. intros x Hx. eapply good_mono; eassumption.
+           ++ apply Forall_forall. intros x Hx. rewrite Forall_forall in Fc.
+              destruct (Fc x (Is x Hx)) as [Sn [i [Si Ci]]]. split; [|exists i; auto].
+              eapply extends_none; eassumption.
+      * apply Lp. exact Le.
+    + apply bind_ok in H. destruct H as [[prod1 evs1] [A H]].
+      apply accept_push_spec in A. destruct A as [Ep [Le1 _]].
+      apply IH in H.
+      * destruct H as [H1 [H2 H3]]. split; [exact H1|]. split; [exact H2|]. lia.
+      * destruct GI as [E Nd Gd]. destruct Ep as [->| ->].
+        -- constructor; [exact E|eapply NoDup_remove_1; exact Nd|].
+           apply Forall_app in Gd. destruct Gd as [G1 G2]. inversion G2; subst.
+           apply Forall_app; split; assumption.
+        -- rewrite <- app_assoc. cbn. constructor; assumption.
+      * destruct Ep as [->| ->]; [lia|rewrite app_length; cbn; lia].
+Qed.
+
+(* ---- fuel: every iteration of the while consumes at least one recorded event ---- *)
+Lemma bind_oof {A B} (r : res A) (f : A -> res B) :
+  bind r f = OutOfFuel -> r = OutOfFuel \/ exists a, r = Ok a /\ f a = OutOfFuel.
+Proof. destruct r; cbn; intro H; [right; eauto|discriminate|left; reflexivity]. Qed.
+
+Lemma accept_not_oof use x (evs : list ev) : accept use x evs <> OutOfFuel.
+Proof.
+  unfold accept. destruct use; [|discriminate].
+  destruct evs as [|e r]; [discriminate|]. destruct e; try discriminate.
+  destruct (Nat.eqb x x0); discriminate.
+Qed.
+
+Lemma accept_push_not_oof use prod x (evs : list ev) : accept_push use prod x evs <> OutOfFuel.
+Proof.
+  unfold accept_push. intro H. apply bind_oof in H. destruct H as [H|[[d e] [_ H]]]; [|discriminate].
+  exact (accept_not_oof _ _ _ H).
+Qed.
+
+Lemma accept_cands_not_oof use n prod cands (evs : list ev) : accept_cands use n prod cands evs <> OutOfFuel.
+Proof.
+  unfold accept_cands. destruct cands as [|x rest]; [discriminate|]. intro H.
+  apply bind_oof in H. destruct H as [H|[[p1 e1] [_ H]]]; [exact (accept_push_not_oof _ _ _ _ H)|].
+  destruct rest; [discriminate|]. destruct (length p1 <? n); [exact (accept_push_not_oof _ _ _ _ H)|discriminate].
+Qed.
+
+Lemma guard_not_oof b c : guard b c <> OutOfFuel.
+Proof. destruct b; discriminate. Qed.
+
+Lemma clone_not_oof st a b : clone st a b <> OutOfFuel.
+Proof. unfold clone. destruct (st a); [destruct (is_fresh st b)|]; discriminate. Qed.
+
+Lemma candidates_not_oof pop cxpb mutpb st (evs : list ev) : candidates pop cxpb mutpb st evs <> OutOfFuel.
+Proof.
+  unfold candidates.
+  destruct evs as [|e evs1]; [discriminate|]. destruct e as [u| | | | |]; try discriminate.
+  destruct (Qltb u cxpb).
+  - destruct evs1 as [|e evs1]; [discriminate|]. destruct e as [|arg k idxs| | | |]; try discriminate.
+    destruct evs1 as [|e evs1]; [discriminate|]. destruct e as [| |s1 c1| | |]; try discriminate.
+    destruct evs1 as [|e evs1]; [discriminate|]. destruct e as [| |s2 c2| | |]; try discriminate.
+    destruct evs1 as [|e evs2]; [discriminate|]. destruct e as [| | |i1 i2 o1 o2| |]; try discriminate.
+    intro H. apply bind_oof in H. destruct H as [H|[[] [_ H]]]; [exact (guard_not_oof _ _ H)|].
+    apply bind_oof in H. destruct H as [H|[st1 [_ H]]]; [exact (clone_not_oof _ _ _ H)|].
+    apply bind_oof in H. destruct H as [H|[st2 [_ H]]]; [exact (clone_not_oof _ _ _ H)|].
+    apply bind_oof in H. destruct H as [H|[[] [_ H]]]; [exact (guard_not_oof _ _ H)|discriminate].
+  - destruct evs1 as [|e evs1]; [discriminate|]. destruct e as [|arg k idxs| | | |]; try discriminate.
+    destruct evs1 as [|e evs2]; [discriminate|]. destruct e as [| |s1 c1| | |]; try discriminate.
+    intro H. apply bind_oof in H. destruct H as [H|[[] [_ H]]]; [exact (guard_not_oof _ _ H)|].
+    apply bind_oof in H. destruct H as [H|[st1 [_ H]]]; [exact (clone_not_oof _ _ _ H)|].
+    destruct (Qltb (u - cxpb) mutpb); [|discriminate].
+    destruct evs2 as [|e evs3]; [discriminate|]. destruct e as [| | | |i o|]; try discriminate.
+    apply bind_oof in H. destruct H as [H|[[] [_ H]]]; [exact (guard_not_oof _ _ H)|discriminate].
+Qed.
+
+Lemma candidates_consumes pop cxpb mutpb st (evs : list ev) st1 cands evs1 :
+  candidates pop cxpb mutpb st evs = Ok (st1, cands, evs1) -> length evs1 < length evs.
+Proof.
+  unfold candidates.
+  destruct evs as [|e evs0]; [discriminate|]. destruct e as [u| | | | |]; try discriminate.
+  destruct (Qltb u cxpb).
+  - destruct evs0 as [|e evs0]; [discriminate|]. destruct e as [|arg k idxs| | | |]; try discriminate.
+    destruct evs0 as [|e evs0]; [discriminate|]. destruct e as [| |s1 c1| | |]; try discriminate.
+    destruct evs0 as [|e evs0]; [discriminate|]. destruct e as [| |s2 c2| | |]; try discriminate.
+    destruct evs0 as [|e evs2]; [discriminate|]. destruct e as [| | |i1 i2 o1 o2| |]; try discriminate.
+    intro H. apply bind_guard in H. destruct H as [_ H].
+    apply bind_ok in H. destruct H as [sa [_ H]]. apply bind_ok in H. destruct H as [sb [_ H]].
+    apply bind_guard in H. destruct H as [_ H]. inversion H; subst. cbn. lia.
+  - destruct evs0 as [|e evs0]; [discriminate|]. destruct e as [|arg k idxs| | | |]; try discriminate.
+    destruct evs0 as [|e evs2]; [discriminate|]. destruct e as [| |s1 c1| | |]; try discriminate.
+    intro H. apply bind_guard in H. destruct H as [_ H]. apply bind_ok in H. destruct H as [sa [_ H]].
+    destruct (Qltb (u - cxpb) mutpb).
+    + destruct evs2 as [|e evs3]; [discriminate|]. destruct e as [| | | |i o|]; try discriminate.
+      apply bind_guard in H. destruct H as [_ H]. inversion H; subst. cbn. lia.
+    + inversion H; subst. cbn. lia.
+Qed.
+
+(* fuel greater than the number of recorded events is never exhausted *)
+Lemma genpop_fuel pop cxpb mutpb n use :
+  forall fuel st prod pick (evs : list ev),
+  (use = true \/ pick = []) -> length evs < fuel ->
+  genpop fuel pop cxpb mutpb n use st prod pick evs <> OutOfFuel.
+Proof.
+  induction fuel as [|fuel IH]; intros st prod pick evs U L; [lia|].
+  rewrite genpop_unfold. destruct (n <=? length prod); [discriminate|].
+  destruct pick as [|asp pick0].
+  - intro H. apply bind_oof in H. destruct H as [H|[[[st1 cands] evs1] [C H]]]; [exact (candidates_not_oof _ _ _ _ _ H)|].
+    apply bind_oof in H. destruct H as [H|[[prod1 evs2] [A H]]]; [exact (accept_cands_not_oof _ _ _ _ _ H)|].
+    apply candidates_consumes in C.
+    destruct (le_lt_dec (length cands) 2) as [L2|L2].
+    + apply accept_cands_spec in A; [|exact L2]. destruct A as [sub [_ [_ [_ [Le _]]]]].
+      revert H. apply IH; [right; reflexivity|lia].
+    + (* more than two aspirants never happens; the length bound is still preserved *)
+      unfold accept_cands in A. destruct cands as [|x [|y rest]]; cbn in L2; try lia.
+      apply bind_ok in A. destruct A as [[p1 e1] [A1 A2]]. apply accept_push_spec in A1. destruct A1 as [_ [Le1 _]].
+      destruct (length p1 <? n).
+      * apply accept_push_spec in A2. destruct A2 as [_ [Le2 _]]. revert H. apply IH; [right; reflexivity|lia].
+      * inversion A2; subst. revert H. apply IH; [right; reflexivity|lia].
+  - destruct U as [U|U]; [|discriminate]. intro H.
+    apply bind_oof in H. destruct H as [H|[[prod1 evs1] [A H]]]; [exact (accept_push_not_oof _ _ _ _ H)|].
+    apply accept_push_spec in A. destruct A as [_ [_ Lt]]. specialize (Lt U).
+    revert H. apply IH; [left; exact U|lia].
+Qed.
+
+(* ---- one generation of harm ---- *)
+Lemma harm_offspring_spec cxpb mutpb nbr s evs st2 off :
+  InvC s -> harm_offspring cxpb mutpb nbr s evs = Ok (st2, off) ->
+  extends (s_st s) st2 /\ Forall (honest st2) off /\ NoDup off /\
+  length off = length (s_pop s) /\ Forall (fun x => s_st s x = None) off.
+Proof.
+  intros I H. unfold harm_offspring in H.
+  assert (Kp : forall p, In p (s_pop s) -> s_st s p <> None).
+  { intros p Hp. pose proof (ic_pop s I) as P. rewrite Forall_forall in P.
+    destruct (P p Hp) as [i [Hi _]]. congruence. }
+  destruct (genpop (S (length evs)) (s_pop s) cxpb mutpb nbr false (s_st s) [] [] evs)
+    as [[[[st1 natural] pk] evs1]| |] eqn:G1; try discriminate.
+  destruct (genpop (S (length evs)) (s_pop s) cxpb mutpb (length (s_pop s)) true st1 [] (rev natural) evs1)
+    as [[[[st2' off'] pk'] evs2]| |] eqn:G2; try discriminate.
+  destruct evs2; [|discriminate]. inversion H; subst st2' off'. clear H.
+  apply (genpop_spec (s_st s) (s_pop s) cxpb mutpb nbr false Kp) in G1; [|constructor; cbn; [apply extends_refl|constructor|constructor]|cbn; lia].
+  destruct G1 as [[E1 N1 Gd1] [_ _]].
+  apply (genpop_spec (s_st s) (s_pop s) cxpb mutpb (length (s_pop s)) true Kp) in G2; [| |cbn; lia].
+  - destruct G2 as [[E2 N2 Gd2] [L2 _]].
+    apply NoDup_app_left in N2. apply Forall_app in Gd2. destruct Gd2 as [Gd2 _].
+    split; [exact E2|]. split; [|split; [exact N2|split; [exact L2|]]].
+    + eapply Forall_impl; [|exact Gd2]. intros x [Nx [i [Si [Ci|[p [ip [Pp [Sp [Gp Fp]]]]]]]]];
+        exists i; split; auto.
+      right. pose proof (ic_pop s I) as P. rewrite Forall_forall in P.
+      destruct (P p Pp) as [j [J1 J2]]. rewrite Sp in J1. inversion J1; subst j.
+      rewrite <- Fp, <- Gp. exact J2.
+    + eapply Forall_impl; [|exact Gd2]. intros x [Nx _]. exact Nx.
+  - cbn. constructor; [exact E1| |].
+    + apply NoDup_rev. apply NoDup_app_left in N1. exact N1.
+    + apply Forall_app in Gd1. destruct Gd1 as [Gd1 _].
+      apply Forall_forall. intros x Hx. apply in_rev in Hx. rewrite Forall_forall in Gd1. auto.
+Qed.
+
+Lemma step_harm_fuel cxpb mutpb nbr gen s evs : step_harm evaluate fle cxpb mutpb nbr gen s evs <> OutOfFuel.
+Proof.
+  unfold step_harm, harm_offspring.
+  destruct (genpop (S (length evs)) (s_pop s) cxpb mutpb nbr false (s_st s) [] [] evs)
+    as [[[[st1 natural] pk] evs1]| |] eqn:G1; try discriminate.
+  - assert (L1 : length evs1 <= length evs).
+    { destruct (le_lt_dec (length evs1) (length evs)) as [L|L]; [exact L|exfalso].
+      (* genpop never returns more events than it was given *)
+      assert (X : forall fuel st prod pick (e : list ev) st' prod' pick' e',
+                genpop fuel (s_pop s) cxpb mutpb nbr false st prod pick e = Ok (st', prod', pick', e') ->
+                pick = [] -> length e' <= length e).
+      { induction fuel as [|fuel IH]; intros st prod pick e st' prod' pick' e' H Hp;
+          rewrite genpop_unfold in H; destruct (nbr <=? length prod); try (inversion H; subst; lia); try discriminate.
+        subst pick. apply bind_ok in H. destruct H as [[[sa cands] ea] [C H]].
+        apply bind_ok in H. destruct H as [[pa eb] [A H]].
+        apply candidates_consumes in C. apply IH in H; [|reflexivity].
+        assert (length eb <= length ea).
+        { unfold accept_cands in A. destruct cands as [|x rest]; [inversion A; subst; lia|].
+          apply bind_ok in A. destruct A as [[p1 e1] [A1 A2]]. apply accept_push_spec in A1. destruct A1 as [_ [Le1 _]].
+          destruct rest; [inversion A2; subst; lia|]. destruct (length p1 <? nbr).
+          - apply accept_push_spec in A2. destruct A2 as [_ [Le2 _]]. lia.
+          - inversion A2; subst. lia. }
+        lia. }
+      apply X in G1; [lia|reflexivity]. }
+    destruct (genpop (S (length evs)) (s_pop s) cxpb mutpb (length (s_pop s)) true st1 [] (rev natural) evs1)
+      as [[[[st2' off'] pk'] evs2]| |] eqn:G2; try discriminate.
+    + destruct evs2; discriminate.
+    + exfalso. revert G2. apply genpop_fuel; [left; reflexivity|lia].
+  - exfalso. revert G1. apply genpop_fuel; [right; reflexivity|lia].
+Qed.
+
+Lemma step_harm_spec cxpb mutpb nbr gen s evs s' :
+  InvC s -> gen = length (s_log s) ->
+  step_harm evaluate fle cxpb mutpb nbr gen s evs = Ok s' ->
+  InvC s' /\ length (s_log s') = S (length (s_log s)) /\ length (s_pop s') = length (s_pop s) /\
+  exists st2 off,
+    harm_offspring cxpb mutpb nbr s evs = Ok (st2, off) /\
+    s' = finish_gen evaluate fle gen s st2 off off /\
+    NoDup off /\ Forall (fun x => s_st s x = None) off.
+Proof.
+  intros I Hg H. unfold step_harm in H.
+  destruct (harm_offspring cxpb mutpb nbr s evs) as [[st2 off]| |] eqn:HO; try discriminate.
+  inversion H; subst s'. clear H.
+  destruct (harm_offspring_spec _ _ _ _ _ _ _ I HO) as [E [Ho [Nd [Lo Fr]]]].
+  split; [apply finish_gen_InvC; auto; apply incl_appr, incl_refl|].
+  rewrite finish_gen_log_length, finish_gen_pop. split; [reflexivity|]. split; [exact Lo|].
+  exists st2, off. auto.
+Qed.
+
+Lemma run_harm_spec cxpb mutpb nbr : forall l gen s s',
+  InvC s -> gen = length (s_log s) ->
+  run_harm evaluate fle cxpb mutpb nbr gen s l = Ok s' ->
+  InvC s' /\ length (s_log s') = length (s_log s) + length l /\ length (s_pop s') = length (s_pop s) /\
+  exists rs cs, s_log s' = s_log s ++ rs /\ s_calls s' = s_calls s ++ cs.
+Proof.
+  induction l as [|evs r IH]; intros gen s s' I Hg H; cbn in H.
+  - inversion H; subst. split; [exact I|]. split; [cbn; lia|]. split; [reflexivity|].
+    exists [], []. rewrite !app_nil_r. auto.
+  - destruct (step_harm evaluate fle cxpb mutpb nbr gen s evs) as [s1| |] eqn:S1; try discriminate.
+    destruct (step_harm_spec _ _ _ _ _ _ _ I Hg S1) as [I1 [L1 [P1 [st2 [off [_ [E1 _]]]]]]].
+    apply IH in H; [|exact I1|lia]. destruct H as [I2 [L2 [P2 [rs [cs [R1 R2]]]]]].
+    split; [exact I2|]. split; [cbn; lia|]. split; [congruence|].
+    rewrite E1, finish_gen_eq in R1, R2. cbn in R1, R2. rewrite <- app_assoc in R1, R2.
+    eexists; eexists; split; [exact R1|exact R2].
+Qed.
+
+Lemma run_harm_app cxpb mutpb nbr : forall l1 l2 gen s e,
+  run_harm evaluate fle cxpb mutpb nbr gen s (l1 ++ l2) = Ok e ->
+  exists b, run_harm evaluate fle cxpb mutpb nbr gen s l1 = Ok b /\
+            run_harm evaluate fle cxpb mutpb nbr (gen + length l1) b l2 = Ok e.
+Proof.
+  induction l1 as [|evs r IH]; intros l2 gen s e H; cbn in *.
+  - exists s. rewrite Nat.add_0_r. auto.
+  - destruct (step_harm evaluate fle cxpb mutpb nbr gen s evs) as [s1| |]; try discriminate.
+    apply IH in H. destruct H as [b [H1 H2]]. exists b. split; [exact H1|].
+    replace (gen + S (length r)) with (S gen + length r) by lia. exact H2.
+Qed.
+
+Lemma run_harm_fuel cxpb mutpb nbr : forall l gen s, run_harm evaluate fle cxpb mutpb nbr gen s l <> OutOfFuel.
+Proof.
+  induction l as [|evs r IH]; intros gen s; cbn; [discriminate|].
+  destruct (step_harm evaluate fle cxpb mutpb nbr gen s evs) as [s1| |] eqn:S1; [apply IH|discriminate|].
+  exfalso. exact (step_harm_fuel _ _ _ _ _ _ S1).
+Qed.
+
+Theorem harm_inv cxpb mutpb nbrindsmodel st pop l s :
+  init_ok st pop ->
+  ea_harm evaluate fle cxpb mutpb nbrindsmodel st pop l = Ok s ->
+  InvC s /\ length (s_log s) = S (length l) /\ length (s_pop s) = length pop.
+Proof.
+  intros H0 H. unfold ea_harm in H. apply run_harm_spec in H.
+  - destruct H as [I [L [P _]]]. rewrite gen0_log_length in L. rewrite gen0_pop in P. auto.
+  - apply gen0_InvC. exact H0.
+  - rewrite gen0_log_length. reflexivity.
+Qed.
+
+(* ------------------------------------------------------------------ *)
+(* at EVERY generation boundary: a boundary is the end of a shorter run, whose logbook and call
+   log are prefixes of the final ones *)
+
+Definition extends_history (b e : state) : Prop :=
+  exists rs cs, s_log e = s_log b ++ rs /\ s_calls e = s_calls b ++ cs.
+
+Theorem simple_every_boundary st pop l1 l2 :
+  init_ok st pop ->
+  run_ok (step_simple evaluate fle) ans_ok_simple 1 (gen0 evaluate fle (init st pop)) (l1 ++ l2) ->
+  let b := ea_simple evaluate fle st pop l1 in
+  InvC b /\ length (s_log b) = S (length l1) /\ length (s_pop b) = length pop /\
+  extends_history b (ea_simple evaluate fle st pop (l1 ++ l2)).
+Proof.
+  intros H0 Hok. cbv zeta. apply run_ok_app in Hok. destruct Hok as [Hok _].
+  destruct (simple_inv st pop l1 H0 Hok) as [I [L P]]. split; [exact I|]. split; [exact L|]. split; [exact P|].
+  unfold ea_simple. rewrite run_from_app.
+  destruct (run_log_prefix (step_simple evaluate fle) step_appends_simple l2 (1 + length l1)
+              (run_from (step_simple evaluate fle) 1 (gen0 evaluate fle (init st pop)) l1)) as [rs [cs [E1 [E2 _]]]].
+  exists rs, cs. auto.
+Qed.
+
+Theorem plus_every_boundary mu lam st pop l1 l2 :
+  init_ok st pop ->
+  run_ok (step_plus evaluate fle) (ans_ok_plus mu lam) 1 (gen0 evaluate fle (init st pop)) (l1 ++ l2) ->
+  let b := ea_plus evaluate fle st pop l1 in
+  InvC b /\ length (s_log b) = S (length l1) /\
+  length (s_pop b) = match l1 with [] => length pop | _ => mu end /\
+  extends_history b (ea_plus evaluate fle st pop (l1 ++ l2)).
+Proof.
+  intros H0 Hok. cbv zeta. apply run_ok_app in Hok. destruct Hok as [Hok _].
+  destruct (plus_inv mu lam st pop l1 H0 Hok) as [I [L P]]. split; [exact I|]. split; [exact L|]. split; [exact P|].
+  unfold ea_plus. rewrite run_from_app.
+  destruct (run_log_prefix (step_plus evaluate fle) step_appends_plus l2 (1 + length l1)
+              (run_from (step_plus evaluate fle) 1 (gen0 evaluate fle (init st pop)) l1)) as [rs [cs [E1 [E2 _]]]].
+  exists rs, cs. auto.
+Qed.
+
+Theorem comma_every_boundary mu lam st pop l1 l2 :
+  init_ok st pop ->
+  run_ok (step_comma evaluate fle) (ans_ok_comma mu lam) 1 (gen0 evaluate fle (init st pop)) (l1 ++ l2) ->
+  let b := ea_comma evaluate fle st pop l1 in
+  InvC b /\ length (s_log b) = S (length l1) /\
+  length (s_pop b) = match l1 with [] => length pop | _ => mu end /\
+  extends_history b (ea_comma evaluate fle st pop (l1 ++ l2)).
+Proof.
+  intros H0 Hok. cbv zeta. apply run_ok_app in Hok. destruct Hok as [Hok _].
+  destruct (comma_inv mu lam st pop l1 H0 Hok) as [I [L P]]. split; [exact I|]. split; [exact L|]. split; [exact P|].
+  unfold ea_comma. rewrite run_from_app.
+  destruct (run_log_prefix (step_comma evaluate fle) step_appends_comma l2 (1 + length l1)
+              (run_from (step_comma evaluate fle) 1 (gen0 evaluate fle (init st pop)) l1)) as [rs [cs [E1 [E2 _]]]].
+  exists rs, cs. auto.
+Qed.
+
+Theorem gu_every_boundary l1 l2 :
+  run_ok (step_gu evaluate fle) ans_ok_gu 0 (init empty_store []) (l1 ++ l2) ->
+  let b := ea_gu evaluate fle l1 in
+  InvC b /\ length (s_log b) = length l1 /\
+  extends_history b (ea_gu evaluate fle (l1 ++ l2)).
+Proof.
+  intros Hok. cbv zeta. apply run_ok_app in Hok. destruct Hok as [Hok _].
+  destruct (gu_inv l1 Hok) as [I L]. split; [exact I|]. split; [exact L|].
+  unfold ea_gu. rewrite run_from_app.
+  destruct (run_log_prefix (step_gu evaluate fle) step_appends_gu l2 (0 + length l1)
+              (run_from (step_gu evaluate fle) 0 (init empty_store []) l1)) as [rs [cs [E1 [E2 _]]]].
+  exists rs, cs. auto.
+Qed.
+
+Theorem harm_every_boundary cxpb mutpb nbrindsmodel st pop l1 l2 e :
+  init_ok st pop ->
+  ea_harm evaluate fle cxpb mutpb nbrindsmodel st pop (l1 ++ l2) = Ok e ->
+  exists b, ea_harm evaluate fle cxpb mutpb nbrindsmodel st pop l1 = Ok b /\
+    InvC b /\ length (s_log b) = S (length l1) /\ length (s_pop b) = length pop /\
+    extends_history b e.
+Proof.
+  intros H0 H. unfold ea_harm in *. apply run_harm_app in H. destruct H as [b [H1 H2]].
+  exists b. split; [exact H1|].
+  destruct (harm_inv cxpb mutpb nbrindsmodel st pop l1 b H0 H1) as [I [L P]].
+  split; [exact I|]. split; [exact L|]. split; [exact P|].
+  apply run_harm_spec in H2; [|exact I|rewrite L; reflexivity].
+  destruct H2 as [_ [_ [_ [rs [cs [E1 E2]]]]]]. exists rs, cs. auto.
+Qed.
+
+(* ---- per generation: who is evaluated ---- *)
+Definition calls_exact (s s' : state) (gen : nat) (off : list (uid * ind)) : Prop :=
+  exists log r,
+    s_calls s' = s_calls s ++ [log] /\ s_log s' = s_log s ++ [r] /\
+    map fst log = map fst (filter inv_content off) /\
+    Forall (fun c => exists i, In (fst c, i) off /\ fit i = None /\ geno i = snd c) log /\
+    r_gen r = gen /\ r_nevals r = length log /\
+    (off_invalid_distinct off -> NoDup (map fst log)).
+
+Theorem simple_calls gen s a :
+  ans_ok_simple s a -> calls_exact s (step_simple evaluate fle gen s a) gen (a_off a).
+Proof. intros [_ [O _]]. unfold step_simple. eapply var_calls. exact O. Qed.
+
+Theorem plus_calls mu lam gen s a :
+  ans_ok_plus mu lam s a -> calls_exact s (step_plus evaluate fle gen s a) gen (a_off a).
+Proof. intros [O _]. unfold step_plus. eapply var_calls. exact O. Qed.
+
+Theorem comma_calls mu lam gen s a :
+  ans_ok_comma mu lam s a -> calls_exact s (step_comma evaluate fle gen s a) gen (a_off a).
+Proof. intros [O _]. unfold step_comma. eapply var_calls. exact O. Qed.
+
+(* harm: the offspring are new, pairwise distinct objects; exactly those with an invalid fitness
+   (the ones that went through mate or mutate) are evaluated, once each, in order *)
+Theorem harm_calls cxpb mutpb nbr gen s evs s' :
+  InvC s -> gen = length (s_log s) ->
+  step_harm evaluate fle cxpb mutpb nbr gen s evs = Ok s' ->
+  exists st2 off log r,
+    harm_offspring cxpb mutpb nbr s evs = Ok (st2, off) /\
+    NoDup off /\ Forall (fun x => s_st s x = None) off /\ s_pop s' = off /\
+    s_calls s' = s_calls s ++ [log] /\ s_log s' = s_log s ++ [r] /\
+    map fst log = invalid_of st2 off /\ NoDup (map fst log) /\
+    Forall (fun c => exists i, st2 (fst c) = Some i /\ geno i = snd c) log /\
+    r_gen r = gen /\ r_nevals r = length log.
+Proof.
+  intros I Hg H. destruct (step_harm_spec _ _ _ _ _ _ _ I Hg H) as [_ [_ [_ [st2 [off [HO [-> [Nd Fr]]]]]]]].
+  destruct (finish_gen_calls gen s st2 off off) as [log [r [E1 [E2 [E3 [E4 [E5 [E6 E7]]]]]]]].
+  exists st2, off, log, r. rewrite finish_gen_pop. repeat split; try assumption.
+  apply E7. apply NoDup_filter. exact Nd.
+Qed.
+
+(* ------------------------------------------------------------------ *)
+(* hall of fame and elitism: these need the fitness order to be a total preorder *)
+Section Order.
+Hypothesis fle_total : forall a b, fle a b = true \/ fle b a = true.
+Hypothesis fle_trans : forall a b c, fle a b = true -> fle b c = true -> fle a c = true.
+
+Lemma fle_refl a : fle a a = true.
+Proof. destruct (fle_total a a); assumption. Qed.
+
+(* the hall of fame's best is at least as good as f *)
+Definition best_ge (best : option F) (f : F) : Prop := exists b, best = Some b /\ fle f b = true.
+
+Lemma hof_upd1_ge best f : best_ge (hof_upd1 fle best f) f.
+Proof.
+  unfold hof_upd1. destruct best as [b|]; [|exists f; split; [reflexivity|apply fle_refl]].
+  destruct (fle f b) eqn:E; [exists b; auto|exists f; split; [reflexivity|apply fle_refl]].
+Qed.
+
+Lemma hof_upd1_mono best f x : best_ge best x -> best_ge (hof_upd1 fle best f) x.
+Proof.
+  intros [b [-> H]]. unfold hof_upd1. destruct (fle f b) eqn:E; [exists b; auto|].
+  exists f; split; [reflexivity|]. destruct (fle_total f b) as [X|X]; [congruence|].
+  eapply fle_trans; eassumption.
+Qed.
+
+Lemma hof_fold_mono l : forall best x, best_ge best x -> best_ge (fold_left (hof_upd1 fle) l best) x.
+Proof. induction l as [|f r IH]; intros best x H; cbn; [exact H|]. apply IH. apply hof_upd1_mono. exact H. Qed.
+
+Lemma hof_fold_ge l : forall best f, In f l -> best_ge (fold_left (hof_upd1 fle) l best) f.
+Proof.
+  induction l as [|g r IH]; intros best f H; [destruct H|]. cbn. destruct H as [->|H].
+  - apply hof_fold_mono. apply hof_upd1_ge.
+  - apply IH. exact H.
+Qed.
+
+Lemma hof_update_mono best st l x : best_ge best x -> best_ge (hof_update fle best st l) x.
+Proof. apply hof_fold_mono. Qed.
+
+Lemma hof_update_ge best st l u i f :
+  In u l -> st u = Some i -> fit i = Some f -> best_ge (hof_update fle best st l) f.
+Proof.
+  intros Hu Hs Hf. apply hof_fold_ge. unfold fits_of. apply in_flat_map. exists u. split; [exact Hu|].
+  rewrite Hs, Hf. left; reflexivity.
+Qed.
+
+Definition entry_le (best : option F) (p : uid * option ind) : Prop :=
+  forall i f, snd p = Some i -> fit i = Some f -> best_ge best f.
+
+Record InvH (s : state) : Prop := mkInvH {
+  (* the best of the hall of fame is at least as good as every fitness ever evaluated ... *)
+  ih_calls : Forall (Forall (fun c => best_ge (s_best s) (evaluate (snd c)))) (s_calls s);
+  (* ... as every fitness the statistics ever logged ... *)
+  ih_snap : Forall (fun r => Forall (entry_le (s_best s)) (r_snap r)) (s_log s);
+  (* ... and each record's own best (hall of fame at that boundary) dominates what was logged then *)
+  ih_rbest : Forall (fun r => Forall (entry_le (r_best r)) (r_snap r)) (s_log s);
+  ih_pop : Forall (fun u => entry_le (s_best s) (u, s_st s u)) (s_pop s) }.
+
+Lemma mk_InvH s st2 newpop log gen nev batch :
+  Forall (Forall (fun c => best_ge (s_best s) (evaluate (snd c)))) (s_calls s) ->
+  Forall (fun r => Forall (entry_le (s_best s)) (r_snap r)) (s_log s) ->
+  Forall (fun r => Forall (entry_le (r_best r)) (r_snap r)) (s_log s) ->
+  Forall (fun c => In (fst c) batch /\ exists i, st2 (fst c) = Some i /\ fit i = Some (evaluate (snd c))) log ->
+  (forall u, In u newpop -> In u batch \/ (st2 u = s_st s u /\ entry_le (s_best s) (u, s_st s u))) ->
+  let best := hof_update fle (s_best s) st2 batch in
+  InvH (mkstate st2 newpop (s_calls s ++ [log])
+                (s_log s ++ [mkrec gen nev (snap st2 newpop) best]) (s_shown s ++ [batch]) best).
+Proof.
+  intros Hc0 Hs0 Hr0 Hlog Hnew best.
+  assert (Pnew : Forall (fun u => entry_le best (u, st2 u)) newpop).
+  { apply Forall_forall. intros u Hu i f Hi Hf. cbn in Hi. destruct (Hnew u Hu) as [Hb|[Hs Hp]].
+    - eapply hof_update_ge; eassumption.
+    - apply hof_update_mono. apply (Hp i f); [cbn; congruence|exact Hf]. }
+  assert (Snew : Forall (entry_le best) (snap st2 newpop)).
+  { unfold snap. apply Forall_forall. intros p Hp. apply in_map_iff in Hp. destruct Hp as [u [<- Hu]].
+    rewrite Forall_forall in Pnew. auto. }
+  constructor; cbn.
+  - apply Forall_app. split.
+    + eapply Forall_impl; [|exact Hc0]. intros c Hc. eapply Forall_impl; [|exact Hc].
+      intros x Hx. apply hof_update_mono. exact Hx.
+    + constructor; [|constructor]. eapply Forall_impl; [|exact Hlog].
+      intros c [Hb [i [Hi Hf]]]. eapply hof_update_ge; eassumption.
+  - apply Forall_app. split.
+    + eapply Forall_impl; [|exact Hs0]. intros r Hr. eapply Forall_impl; [|exact Hr].
+      intros p Hp i f Hi Hf. apply hof_update_mono. eapply Hp; eassumption.
+    + constructor; [exact Snew|constructor].
+  - apply Forall_app. split; [exact Hr0|]. constructor; [exact Snew|constructor].
+  - exact Pnew.
+Qed.
+
+Lemma finish_gen_InvH gen s st1 off newpop :
+  InvC s -> InvH s -> extends (s_st s) st1 -> Forall (honest st1) off ->
+  incl newpop (s_pop s ++ off) ->
+  InvH (finish_gen evaluate fle gen s st1 off newpop).
+Proof.
+  intros I H E Hoff Hin. rewrite finish_gen_eq. cbv zeta.
+  apply mk_InvH; [exact (ih_calls s H)|exact (ih_snap s H)|exact (ih_rbest s H)| |].
+  - pose proof (geno_pairs_known st1 _ (invalid_of_known st1 off)) as [K1 [K2 K3]].
+    apply Forall_forall. intros c Hc. rewrite Forall_forall in K3. destruct (K3 c Hc) as [i [Si Gi]].
+    assert (Hu : In (fst c) (invalid_of st1 off)) by (rewrite <- K1; apply in_map; exact Hc).
+    split; [apply (invalid_of_incl st1 off); exact Hu|].
+    destruct (eval_list_truthful (invalid_of st1 off) st1 (fst c) Hu) as [j [J1 J2]]; [congruence|].
+    exists j. split; [exact J1|]. rewrite J2. do 2 f_equal.
+    pose proof (eval_list_same_geno (invalid_of st1 off) st1 (fst c)) as SG.
+    rewrite Si, J1 in SG. cbn in SG. congruence.
+  - intros u Hu. apply Hin in Hu. apply in_app_or in Hu. destruct Hu as [Hu|Hu]; [right|left; exact Hu].
+    split; [|pose proof (ih_pop s H) as Q; rewrite Forall_forall in Q; auto].
+    pose proof (ic_pop s I) as P. rewrite Forall_forall in P.
+    destruct (P u Hu) as [i [Si Fi]]. rewrite Si. rewrite eval_invalid_valid_untouched.
+    + apply E. exact Si.
+    + apply truthful_not_invalid. exists i. split; [apply E; exact Si|exact Fi].
+Qed.
+
+Lemma init_InvH st pop : InvH (init st pop) -> True.
+Proof. trivial. Qed.
+
+Lemma gen0_InvH st pop : init_ok st pop -> InvH (gen0 evaluate fle (init st pop)).
+Proof.
+  intro H0. unfold gen0. rewrite finish_gen_eq. cbv zeta.
+  change (s_calls (init st pop)) with (@nil (list (uid * G))).
+  apply (mk_InvH (init st pop)); [constructor|constructor|constructor| |].
+  - pose proof (geno_pairs_known st _ (invalid_of_known st pop)) as [K1 [K2 K3]].
+    apply Forall_forall. intros c Hc. rewrite Forall_forall in K3. destruct (K3 c Hc) as [i [Si Gi]].
+    assert (Hu : In (fst c) (invalid_of st pop)) by (rewrite <- K1; apply in_map; exact Hc).
+    split; [apply (invalid_of_incl st pop); exact Hu|].
+    destruct (eval_list_truthful (invalid_of st pop) st (fst c) Hu) as [j [J1 J2]]; [cbn; congruence|].
+    exists j. split; [exact J1|]. rewrite J2. do 2 f_equal.
+    pose proof (eval_list_same_geno (invalid_of st pop) st (fst c)) as SG.
+    cbn in Si. rewrite Si, J1 in SG. cbn in SG. congruence.
+  - intros u Hu. left. exact Hu.
+Qed.
+
+Lemma step_simple_InvH gen s a :
+  InvC s -> InvH s -> ans_ok_simple s a -> InvH (step_simple evaluate fle gen s a).
+Proof.
+  intros I H [[S1 S2] [O L]]. unfold step_simple. apply finish_gen_InvH; auto.
+  - eapply off_ok_extends; exact O.
+  - eapply off_ok_honest; [exact O|]. apply pop_truthful_incl; [exact I|apply select_by_incl; exact S2].
+  - apply incl_appr, incl_refl.
+Qed.
+
+Lemma step_plus_InvH mu lam gen s a :
+  InvC s -> InvH s -> ans_ok_plus mu lam s a -> InvH (step_plus evaluate fle gen s a).
+Proof.
+  intros I H [O [L [S1 S2]]]. unfold step_plus. apply finish_gen_InvH; auto.
+  - eapply off_ok_extends; exact O.
+  - eapply off_ok_honest; [exact O|]. apply pop_truthful_incl; [exact I|apply incl_refl].
+  - apply select_by_incl; exact S2.
+Qed.
+
+Lemma step_comma_InvH mu lam gen s a :
+  InvC s -> InvH s -> ans_ok_comma mu lam s a -> InvH (step_comma evaluate fle gen s a).
+Proof.
+  intros I H [O [L [S1 S2]]]. unfold step_comma. apply finish_gen_InvH; auto.
+  - eapply off_ok_extends; exact O.
+  - eapply off_ok_honest; [exact O|]. apply pop_truthful_incl; [exact I|apply incl_refl].
+  - eapply incl_tran; [apply select_by_incl; exact S2|apply incl_appr, incl_refl].
+Qed.
+
+Lemma step_gu_InvH gen s a :
+  InvH s -> ans_ok_gu s a -> InvH (step_gu evaluate fle gen s a).
+Proof.
+  intros H [Fr Nd]. rewrite step_gu_eq. cbv zeta.
+  apply mk_InvH; [exact (ih_calls s H)|exact (ih_snap s H)|exact (ih_rbest s H)| |].
+  - set (pop := map fst (a_off a)). set (st1 := add_objs (s_st s) (a_off a)).
+    assert (Kn : Forall (fun u => st1 u <> None) pop).
+    { apply Forall_forall. intros u Hu. apply in_map_iff in Hu. destruct Hu as [[u' i] [E Hu]]. cbn in E; subst u'.
+      unfold st1. rewrite (add_objs_in (a_off a) (s_st s) u i); [congruence| |exact Hu].
+      intros i' Hi'. eapply nodup_fst_fun; eassumption. }
+    pose proof (geno_pairs_known st1 pop Kn) as [K1 [K2 K3]].
+    apply Forall_forall. intros c Hc. rewrite Forall_forall in K3. destruct (K3 c Hc) as [i [Si Gi]].
+    assert (Hu : In (fst c) pop) by (rewrite <- K1; apply in_map; exact Hc).
+    split; [exact Hu|].
+    destruct (eval_list_truthful pop st1 (fst c) Hu) as [j [J1 J2]]; [congruence|].
+    exists j. split; [exact J1|]. rewrite J2. do 2 f_equal.
+    pose proof (eval_list_same_geno pop st1 (fst c)) as SG.
+    rewrite Si, J1 in SG. cbn in SG. congruence.
+  - intros u Hu. left. exact Hu.
+Qed.
+
+Theorem simple_hof st pop answers :
+  init_ok st pop ->
+  run_ok (step_simple evaluate fle) ans_ok_simple 1 (gen0 evaluate fle (init st pop)) answers ->
+  InvH (ea_simple evaluate fle st pop answers).
+Proof.
+  intros H0 Hok. unfold ea_simple.
+  apply (run_inv (step_simple evaluate fle) ans_ok_simple
+           (fun gen s => (InvC s /\ length (s_log s) = gen) /\ InvH s)); [| |exact Hok].
+  - intros gen s a [[I L] H] Ha. split; [split; [apply step_simple_InvC; auto|]|apply step_simple_InvH; auto].
+    unfold step_simple. rewrite finish_gen_log_length. lia.
+  - split; [split; [apply gen0_InvC; exact H0|apply gen0_log_length]|apply gen0_InvH; exact H0].
+Qed.
+
+Theorem plus_hof mu lam st pop answers :
+  init_ok st pop ->
+  run_ok (step_plus evaluate fle) (ans_ok_plus mu lam) 1 (gen0 evaluate fle (init st pop)) answers ->
+  InvH (ea_plus evaluate fle st pop answers).
+Proof.
+  intros H0 Hok. unfold ea_plus.
+  apply (run_inv (step_plus evaluate fle) (ans_ok_plus mu lam)
+           (fun gen s => (InvC s /\ length (s_log s) = gen) /\ InvH s)); [| |exact Hok].
+  - intros gen s a [[I L] H] Ha. split; [split; [eapply step_plus_InvC; eauto|]|eapply step_plus_InvH; eauto].
+    unfold step_plus. rewrite finish_gen_log_length. lia.
+  - split; [split; [apply gen0_InvC; exact H0|apply gen0_log_length]|apply gen0_InvH; exact H0].
+Qed.
+
+Theorem comma_hof mu lam st pop answers :
+  init_ok st pop ->
+  run_ok (step_comma evaluate fle) (ans_ok_comma mu lam) 1 (gen0 evaluate fle (init st pop)) answers ->
+  InvH (ea_comma evaluate fle st pop answers).
+Proof.
+  intros H0 Hok. unfold ea_comma.
+  apply (run_inv (step_comma evaluate fle) (ans_ok_comma mu lam)
+           (fun gen s => (InvC s /\ length (s_log s) = gen) /\ InvH s)); [| |exact Hok].
+  - intros gen s a [[I L] H] Ha. split; [split; [eapply step_comma_InvC; eauto|]|eapply step_comma_InvH; eauto].
+    unfold step_comma. rewrite finish_gen_log_length. lia.
+  - split; [split; [apply gen0_InvC; exact H0|apply gen0_log_length]|apply gen0_InvH; exact H0].
+Qed.
+
+Theorem gu_hof answers :
+  run_ok (step_gu evaluate fle) ans_ok_gu 0 (init empty_store []) answers ->
+  InvH (ea_gu evaluate fle answers).
+Proof.
+  intros Hok. unfold ea_gu.
+  apply (run_inv (step_gu evaluate fle) ans_ok_gu (fun gen s => InvH s)); [| |exact Hok].
+  - intros gen s a H Ha. apply step_gu_InvH; auto.
+  - constructor; cbn; constructor.
+Qed.
+
+Lemma run_harm_hof cxpb mutpb nbr : forall l gen s s',
+  InvC s -> gen = length (s_log s) -> InvH s ->
+  run_harm evaluate fle cxpb mutpb nbr gen s l = Ok s' -> InvH s'.
+Proof.
+  induction l as [|evs r IH]; intros gen s s' I Hg H R; cbn in R.
+  - inversion R; subst. exact H.
+  - destruct (step_harm evaluate fle cxpb mutpb nbr gen s evs) as [s1| |] eqn:S1; try discriminate.
+    destruct (step_harm_spec _ _ _ _ _ _ _ I Hg S1) as [I1 [L1 [P1 [st2 [off [HO [E1 _]]]]]]].
+    destruct (harm_offspring_spec _ _ _ _ _ _ _ I HO) as [E [Ho _]].
+    eapply (IH (S gen)); [exact I1|lia| |exact R]. rewrite E1.
+    apply finish_gen_InvH; auto. apply incl_appr, incl_refl.
+Qed.
+
+Theorem harm_hof cxpb mutpb nbrindsmodel st pop l s :
+  init_ok st pop ->
+  ea_harm evaluate fle cxpb mutpb nbrindsmodel st pop l = Ok s -> InvH s.
+Proof.
+  intros H0 H. unfold ea_harm in H. eapply run_harm_hof; [| | |exact H].
+  - apply gen0_InvC. exact H0.
+  - rewrite gen0_log_length. reflexivity.
+  - apply gen0_InvH. exact H0.
+Qed.
+
+(* ---- tools.selBest and elitism of mu+lambda ---- *)
+Definition valid_in (st : store) (u : uid) : Prop := exists i f, st u = Some i /\ fit i = Some f.
+
+Lemma fit_lt_false st x y ix iy fx fy :
+  st x = Some ix -> fit ix = Some fx -> st y = Some iy -> fit iy = Some fy ->
+  (fit_lt fle st x y = false <-> fle fy fx = true).
+Proof.
+  intros A B C D. unfold fit_lt. rewrite A, C, B, D. destruct (fle fy fx); cbn; split; congruence.
+Qed.
+
+Lemma fit_lt_refl st x : valid_in st x -> fit_lt fle st x x = false.
+Proof. intros [i [f [A B]]]. apply (fit_lt_false st x x i i f f A B A B). apply fle_refl. Qed.
+
+Lemma fit_lt_asym st x y : valid_in st x -> valid_in st y -> fit_lt fle st x y = true -> fit_lt fle st y x = false.
+Proof.
+  intros [ix [fx [A B]]] [iy [fy [C D]]] H.
+  apply (fit_lt_false st y x iy ix fy fx C D A B).
+  unfold fit_lt in H. rewrite A, C, B, D in H. apply negb_true_iff in H.
+  destruct (fle_total fx fy) as [X|X]; [exact X|congruence].
+Qed.
+
+Lemma fit_lt_false_trans st x y z :
+  valid_in st x -> valid_in st y -> valid_in st z ->
+  fit_lt fle st x y = false -> fit_lt fle st y z = false -> fit_lt fle st x z = false.
+Proof.
+  intros [ix [fx [A B]]] [iy [fy [C D]]] [iz [fz [E0 F0]]] H1 H2.
+  apply (fit_lt_false st x y ix iy fx fy A B C D) in H1.
+  apply (fit_lt_false st y z iy iz fy fz C D E0 F0) in H2.
+  apply (fit_lt_false st x z ix iz fx fz A B E0 F0). eapply fle_trans; eassumption.
+Qed.
+
+Lemma insert_desc_In st x l z : In z (insert_desc fle st x l) <-> z = x \/ In z l.
+Proof.
+  induction l as [|y r IH]; cbn; [intuition|].
+  destruct (fit_lt fle st x y); cbn; [rewrite IH|]; intuition.
+Qed.
+
+Lemma insert_desc_length st x l : length (insert_desc fle st x l) = S (length l).
+Proof. induction l as [|y r IH]; cbn; [reflexivity|]. destruct (fit_lt fle st x y); cbn; [rewrite IH|]; reflexivity. Qed.
+
+Lemma sort_desc_In st l z : In z (sort_desc fle st l) <-> In z l.
+Proof.
+  induction l as [|x r IH]; cbn; [tauto|]. unfold sort_desc in *. cbn.
+  rewrite insert_desc_In, IH. intuition.
+Qed.
+
+Lemma sort_desc_length st l : length (sort_desc fle st l) = length l.
+Proof. induction l as [|x r IH]; cbn; [reflexivity|]. unfold sort_desc in *. cbn. rewrite insert_desc_length, IH. reflexivity. Qed.
+
+(* the first element of the sorted list is not worse than any element *)
+Definition head_max (st : store) (l : list uid) : Prop :=
+  match l with [] => True | h :: _ => forall x, In x l -> fit_lt fle st h x = false end.
+
+Lemma insert_desc_head_max st x l :
+  valid_in st x -> Forall (valid_in st) l -> head_max st l -> head_max st (insert_desc fle st x l).
+Proof.
+  intros Vx Vl H. destruct l as [|h t]; cbn.
+  - intros z [<-|[]]. apply fit_lt_refl; exact Vx.
+  - inversion Vl as [|? ? Vh Vt]; subst. destruct (fit_lt fle st x h) eqn:E; cbn.
+    + intros z [<-|Hz]; [apply fit_lt_refl; exact Vh|].
+      apply insert_desc_In in Hz. destruct Hz as [->|Hz].
+      * apply fit_lt_asym; assumption.
+      * apply H. right; exact Hz.
+    + intros z [<-|[<-|Hz]]; [apply fit_lt_refl; exact Vx|exact E|].
+      rewrite Forall_forall in Vt. eapply fit_lt_false_trans; [exact Vx|exact Vh|auto|exact E|].
+      apply H. right; exact Hz.
+Qed.
+
+Lemma sort_desc_head_max st l : Forall (valid_in st) l -> head_max st (sort_desc fle st l).
+Proof.
+  induction 1 as [|x r Vx Vr IH]; [exact I|]. unfold sort_desc in *. cbn.
+  apply insert_desc_head_max; [exact Vx| |exact IH].
+  apply Forall_forall. intros z Hz. apply (sort_desc_In st r z) in Hz. rewrite Forall_forall in Vr. auto.
+Qed.
+
+Lemma In_firstn {A} k : forall (l : list A) z, In z (firstn k l) -> In z l.
+Proof.
+  induction k as [|k IH]; intros l z H; [destruct H|]. destruct l as [|a r]; [destruct H|].
+  cbn in H. destruct H as [->|H]; [left; reflexivity|right; apply IH; exact H].
+Qed.
+
+Lemma sel_best_incl st l k : incl (sel_best fle st l k) l.
+Proof.
+  intros z Hz. unfold sel_best in Hz. apply (sort_desc_In st l z).
+  eapply In_firstn; exact Hz.
+Qed.
+
+Lemma sel_best_length st l k : length (sel_best fle st l k) = Nat.min k (length l).
+Proof. unfold sel_best. rewrite firstn_length, sort_desc_length. reflexivity. Qed.
+
+(* truncation selection keeps an individual that is not worse than any given one *)
+Lemma sel_best_keeps_best st l k x :
+  Forall (valid_in st) l -> 1 <= k -> In x l ->
+  exists y, In y (sel_best fle st l k) /\ fit_lt fle st y x = false.
+Proof.
+  intros V K Hx. pose proof (sort_desc_head_max st l V) as H.
+  unfold sel_best. destruct (sort_desc fle st l) as [|h t] eqn:E.
+  - exfalso. apply (sort_desc_In st l x) in Hx. rewrite E in Hx. exact Hx.
+  - destruct k as [|k]; [lia|]. exists h. split; [left; reflexivity|].
+    unfold head_max in H. apply H. rewrite <- E. apply (sort_desc_In st l x). exact Hx.
+Qed.
+
+(* mu+lambda with tools.selBest is an instance of mu+lambda (selBest answers with elements of its argument) *)
+Lemma step_plus_best_is_plus mu gen s (a : ans) :
+  exists idxs,
+    step_plus_best evaluate fle mu gen s a = step_plus evaluate fle gen s (mkans idxs (a_off a)) /\
+    sel_ok (s_pop s ++ map fst (a_off a)) (Nat.min mu (length (s_pop s ++ map fst (a_off a)))) idxs.
+Proof.
+  set (st1 := add_objs (s_st s) (a_off a)). set (off := map fst (a_off a)).
+  set (st2 := fst (eval_list evaluate st1 (invalid_of st1 off))).
+  destruct (incl_select_by (s_pop s ++ off) (sel_best fle st2 (s_pop s ++ off) mu) (sel_best_incl _ _ _))
+    as [idxs [E Fi]].
+  exists idxs. split.
+  - unfold step_plus_best, step_plus. cbn [a_sel a_off]. fold st1 off st2. rewrite E. reflexivity.
+  - split; [|exact Fi]. rewrite <- (select_by_length (s_pop s ++ off) idxs), <- E. apply sel_best_length.
+Qed.
+
+(* With a mu+lambda generation and truncation selection the best fitness never gets worse:
+   every fitness present in the population before is matched or beaten by a member afterwards. *)
+Theorem plus_best_elitist mu gen s (a : ans) :
+  InvC s -> off_ok (s_st s) (s_pop s) (a_off a) -> 1 <= mu ->
+  let s' := step_plus_best evaluate fle mu gen s a in
+  forall x i f, In x (s_pop s) -> s_st s x = Some i -> fit i = Some f ->
+  exists y iy fy, In y (s_pop s') /\ s_st s' y = Some iy /\ fit iy = Some fy /\ fle f fy = true.
+Proof.
+  intros I O Mu. cbv zeta. intros x i f Hx Sx Fx.
+  unfold step_plus_best. rewrite finish_gen_eq. cbv zeta. cbn.
+  set (st1 := add_objs (s_st s) (a_off a)). set (off := map fst (a_off a)).
+  set (st2 := fst (eval_list evaluate st1 (invalid_of st1 off))).
+  assert (E : extends (s_st s) st1) by (eapply off_ok_extends; exact O).
+  assert (Hoff : Forall (honest st1) off).
+  { eapply off_ok_honest; [exact O|]. apply pop_truthful_incl; [exact I|apply incl_refl]. }
+  assert (T : Forall (truthful st2) (s_pop s ++ off)).
+  { apply Forall_app. split; apply Forall_forall; intros u Hu.
+    - apply eval_list_keeps_truthful. eapply truthful_extends; [exact E|].
+      pose proof (ic_pop s I) as P. rewrite Forall_forall in P. auto.
+    - apply eval_invalid_members; [exact Hu|]. rewrite Forall_forall in Hoff. auto. }
+  assert (V : Forall (valid_in st2) (s_pop s ++ off)).
+  { eapply Forall_impl; [|exact T]. intros u [j [J1 J2]]. exists j; eexists; eauto. }
+  destruct (sel_best_keeps_best st2 (s_pop s ++ off) mu x V Mu) as [y [Hy Ly]]; [apply in_or_app; left; exact Hx|].
+  assert (Vy : valid_in st2 y).
+  { rewrite Forall_forall in V. apply V. eapply sel_best_incl; exact Hy. }
+  destruct Vy as [iy [fy [Sy Fy]]].
+  assert (Sx2 : st2 x = Some i).
+  { unfold st2. rewrite eval_invalid_valid_untouched; [apply E; exact Sx|].
+    unfold is_invalid. rewrite (E _ _ Sx), Fx. reflexivity. }
+  exists y, iy, fy. split; [exact Hy|]. split; [exact Sy|]. split; [exact Fy|].
+  apply (fit_lt_false st2 y x iy i fy f Sy Fy Sx2 Fx). exact Ly.
+Qed.
+
+(* the same at every boundary *)
+Theorem simple_hof_boundary st pop l1 l2 :
+  init_ok st pop ->
+  run_ok (step_simple evaluate fle) ans_ok_simple 1 (gen0 evaluate fle (init st pop)) (l1 ++ l2) ->
+  InvH (ea_simple evaluate fle st pop l1).
+Proof. intros H0 Hok. apply run_ok_app in Hok. apply simple_hof; tauto. Qed.
+
+Theorem plus_hof_boundary mu lam st pop l1 l2 :
+  init_ok st pop ->
+  run_ok (step_plus evaluate fle) (ans_ok_plus mu lam) 1 (gen0 evaluate fle (init st pop)) (l1 ++ l2) ->
+  InvH (ea_plus evaluate fle st pop l1).
+Proof. intros H0 Hok. apply run_ok_app in Hok. eapply plus_hof; [exact H0|apply Hok]. Qed.
+
+Theorem comma_hof_boundary mu lam st pop l1 l2 :
+  init_ok st pop ->
+  run_ok (step_comma evaluate fle) (ans_ok_comma mu lam) 1 (gen0 evaluate fle (init st pop)) (l1 ++ l2) ->
+  InvH (ea_comma evaluate fle st pop l1).
+Proof. intros H0 Hok. apply run_ok_app in Hok. eapply comma_hof; [exact H0|apply Hok]. Qed.
+
+Theorem gu_hof_boundary l1 l2 :
+  run_ok (step_gu evaluate fle) ans_ok_gu 0 (init empty_store []) (l1 ++ l2) ->
+  InvH (ea_gu evaluate fle l1).
+Proof. intros Hok. apply run_ok_app in Hok. apply gu_hof; tauto. Qed.
+
+Theorem harm_hof_boundary cxpb mutpb nbrindsmodel st pop l1 l2 e :
+  init_ok st pop ->
+  ea_harm evaluate fle cxpb mutpb nbrindsmodel st pop (l1 ++ l2) = Ok e ->
+  exists b, ea_harm evaluate fle cxpb mutpb nbrindsmodel st pop l1 = Ok b /\ InvH b.
+Proof.
+  intros H0 H. destruct (harm_every_boundary _ _ _ _ _ _ _ _ H0 H) as [b [Hb _]].
+  exists b. split; [exact Hb|]. eapply harm_hof; eassumption.
+Qed.
+
+(* in one mu+lambda generation with selBest, if mu does not exceed the pool, the contract of
+   step_plus holds, so all invariants carry over *)
+Lemma ans_ok_plus_best mu lam gen s (a : ans) :
+  off_ok (s_st s) (s_pop s) (a_off a) -> length (a_off a) = lam -> mu <= length (s_pop s) + lam ->
+  exists idxs, step_plus_best evaluate fle mu gen s a = step_plus evaluate fle gen s (mkans idxs (a_off a)) /\
+               ans_ok_plus mu lam s (mkans idxs (a_off a)).
+Proof.
+  intros O L M. destruct (step_plus_best_is_plus mu gen s a) as [idxs [E [S1 S2]]].
+  exists idxs. split; [exact E|]. split; [exact O|]. split; [exact L|]. split; [|exact S2].
+  cbn [a_sel a_off]. rewrite S1. rewrite app_length, map_length, L. lia.
+Qed.
+
+End Order.
 
 End Proofs.
